@@ -140,13 +140,13 @@ Proof.
     rewrite app_nil_r. split; [reflexivity|]. now exists sk.
 Qed.
 
-Lemma a_loop_core f : pure f -> forall fuel c wg L, T1L L ->
-  match a_loop fuel c wg L with
+Lemma a_loop_core f : pure f -> forall fuel mx wg L, T1L L ->
+  match a_loop fuel mx wg L with
   | (false, L') => T1L L' /\ filter f (lflat L') = filter f (lflat L)
   | (true, L') => exists r, filter f (lflat L) = filter f (l_ca L') ++ r
   end.
 Proof.
-  intros Hf fuel c wg. induction fuel as [|fuel IH]; intros L HT; cbn [a_loop].
+  intros Hf fuel mx wg. induction fuel as [|fuel IH]; intros L HT; cbn [a_loop].
   - split; [exact HT|reflexivity].
   - pose proof (a_next_spec L HT) as HN. destruct (a_next L) as [nx L1].
     destruct HN as (Hcur & HT1 & Hsk & Hca & Hnone & Hfl & _).
@@ -156,24 +156,24 @@ Proof.
       * apply poll_ready_spec in Epr. destruct Epr as [Eapp _].
         assert (Hfl' : filter f (ca' ++ sk' ++ [n] ++ l_sq L1 ++ l_aq L1) = filter f (lflat L)).
         { rewrite <- Hfl. rewrite !app_assoc. rewrite Eapp. reflexivity. }
-        destruct (max_out c <? n_len n).
+        destruct (mx <? n_len n).
         -- cbn. eexists. rewrite <- Hfl'. rewrite filter_app. reflexivity.
         -- specialize (IH (set_out (sk' ++ [n]) ca' L1)).
            assert (HT2 : T1L (set_out (sk' ++ [n]) ca' L1)) by exact HT1.
            specialize (IH HT2).
            assert (Efl : filter f (lflat (set_out (sk' ++ [n]) ca' L1)) = filter f (lflat L)).
            { rewrite <- Hfl'. unfold lflat, set_out. cbn. rewrite <- !app_assoc. reflexivity. }
-           destruct (a_loop fuel c wg (set_out (sk' ++ [n]) ca' L1)) as [[|] L'].
+           destruct (a_loop fuel mx wg (set_out (sk' ++ [n]) ca' L1)) as [[|] L'].
            ++ destruct IH as [r Hr]. exists r. rewrite <- Efl. exact Hr.
            ++ destruct IH as [HT' Hr]. split; [exact HT'|]. now rewrite Hr.
       * split; [exact HT1|]. rewrite <- Hfl. unfold lflat, set_cur. cbn. reflexivity.
     + destruct (Hnone eq_refl) as (_ & _ & _ & ->). split; [exact HT|reflexivity].
 Qed.
 
-Lemma a_loop_forall (P : notif -> Prop) : forall fuel c wg L, T1L L ->
-  Forall P (lflat L) -> Forall P (lflat (snd (a_loop fuel c wg L))).
+Lemma a_loop_forall (P : notif -> Prop) : forall fuel mx wg L, T1L L ->
+  Forall P (lflat L) -> Forall P (lflat (snd (a_loop fuel mx wg L))).
 Proof.
-  induction fuel as [|fuel IH]; intros c wg L HT HP; cbn [a_loop].
+  induction fuel as [|fuel IH]; intros mx wg L HT HP; cbn [a_loop].
   - exact HP.
   - pose proof (a_next_spec L HT) as HN. destruct (a_next L) as [nx L1].
     destruct HN as (Hcur & HT1 & Hsk & Hca & Hnone & _ & HPl). specialize (HPl P HP).
@@ -182,7 +182,7 @@ Proof.
       * apply poll_ready_spec in Epr. destruct Epr as [Eapp _].
         assert (HP' : Forall P (ca' ++ sk' ++ [n] ++ l_sq L1 ++ l_aq L1)).
         { rewrite !app_assoc. rewrite Eapp. rewrite <- !app_assoc. exact HPl. }
-        destruct (max_out c <? n_len n).
+        destruct (mx <? n_len n).
         -- apply Forall_app_iff in HP'. destruct HP' as [A B].
            apply Forall_app_iff in B. destruct B as [B C].
            apply Forall_app_iff in C. destruct C as [_ C].
@@ -194,12 +194,12 @@ Proof.
 Qed.
 
 (* everything that enters the sink (and hence the carrier) passed the sender's size check *)
-Lemma a_loop_out : forall fuel c wg L,
-  Forall (fun n => n_len n <= max_out c) (l_ca L ++ l_sk L) ->
-  let L' := snd (a_loop fuel c wg L) in
-  Forall (fun n => n_len n <= max_out c) (l_ca L' ++ l_sk L').
+Lemma a_loop_out : forall fuel mx wg L,
+  Forall (fun n => n_len n <= mx) (l_ca L ++ l_sk L) ->
+  let L' := snd (a_loop fuel mx wg L) in
+  Forall (fun n => n_len n <= mx) (l_ca L' ++ l_sk L').
 Proof.
-  induction fuel as [|fuel IH]; intros c wg L HP; cbn [a_loop].
+  induction fuel as [|fuel IH]; intros mx wg L HP; cbn [a_loop].
   - exact HP.
   - assert (HN : l_sk (snd (a_next L)) = l_sk L /\ l_ca (snd (a_next L)) = l_ca L).
     { unfold a_next. destruct (l_cur L); [cbn; auto|].
@@ -210,7 +210,7 @@ Proof.
     destruct (poll_ready wg (l_sk L1) (l_ca L1)) as [[sk' ca']|] eqn:Epr.
     + apply poll_ready_spec in Epr. destruct Epr as [Eapp _].
       rewrite Hsk, Hca in Eapp.
-      destruct (max_out c <? n_len n) eqn:Eo.
+      destruct (mx <? n_len n) eqn:Eo.
       * cbn. rewrite Eapp. exact HP.
       * apply IH. cbn. rewrite app_assoc, Eapp. apply Forall_app_iff. split; [exact HP|].
         constructor; [lia|constructor].
@@ -218,9 +218,9 @@ Proof.
 Qed.
 
 (* the carrier only grows during the loop *)
-Lemma a_loop_carrier : forall fuel c wg L, exists x, l_ca (snd (a_loop fuel c wg L)) = l_ca L ++ x.
+Lemma a_loop_carrier : forall fuel mx wg L, exists x, l_ca (snd (a_loop fuel mx wg L)) = l_ca L ++ x.
 Proof.
-  induction fuel as [|fuel IH]; intros c wg L; cbn [a_loop].
+  induction fuel as [|fuel IH]; intros mx wg L; cbn [a_loop].
   - exists []. now rewrite app_nil_r.
   - assert (HN : l_sk (snd (a_next L)) = l_sk L /\ l_ca (snd (a_next L)) = l_ca L).
     { unfold a_next. destruct (l_cur L); [cbn; auto|].
@@ -230,12 +230,13 @@ Proof.
     destruct nx as [n|]; [|cbn; exists []; now rewrite Hca, app_nil_r].
     destruct (poll_ready wg (l_sk L1) (l_ca L1)) as [[sk' ca']|] eqn:Epr.
     + apply poll_ready_spec in Epr. destruct Epr as [_ [x Ex]]. rewrite Hca in Ex.
-      destruct (max_out c <? n_len n).
+      destruct (mx <? n_len n).
       * cbn. now exists x.
-      * destruct (IH c wg (set_out (sk' ++ [n]) ca' L1)) as [y Ey]. rewrite Ey. cbn.
+      * destruct (IH mx wg (set_out (sk' ++ [n]) ca' L1)) as [y Ey]. rewrite Ey. cbn.
         exists (x ++ y). rewrite Ex. now rewrite app_assoc.
     + cbn. exists []. now rewrite Hca, app_nil_r.
 Qed.
+
 
 (* ------------------------------------------------------------------ projections *)
 Lemma proj_app k m a b : proj k m (a ++ b) = proj k m a ++ proj k m b.
@@ -253,195 +254,727 @@ Proof.
   unfold sel. destruct (n_per n =? k) eqn:E; [|reflexivity]. lia.
 Qed.
 
-Lemma pre_from_eq p acc D X :
-  (forall m, exists r, proj p m acc = proj p m D ++ proj p m X ++ r) ->
-  Forall (fun n => n_per n = p) X ->
-  (forall k m, prefix (proj k m D) (proj k m acc)) ->
-  forall k m, prefix (proj k m (D ++ X)) (proj k m acc).
-Proof.
-  intros He HX HD k m. destruct (N.eq_dec k p) as [->|Hk].
-  - destruct (He m) as [r Hr]. rewrite Hr, proj_app. exists r. now rewrite <- app_assoc.
-  - rewrite proj_app. rewrite (proj_other p X k m HX Hk). rewrite app_nil_r. apply HD.
-Qed.
-
-(* ------------------------------------------------------------------ the FIFO invariant *)
-Definition pipe (s : st) : list notif :=
-  carrier (sl s) ++ sink (sa s) ++ opt_list (parked (sa s)) ++ syncq (sa s) ++ asyncq (sa s).
-
-Definition seen (s : st) : list notif := delivered (sg s) ++ notifq (sb s).
-
-Record InvC (s : st) : Prop := mkInvC {
-  c_t1s : Forall (fun n => n_sync n = true) (syncq (sa s));
-  c_t1a : Forall (fun n => n_sync n = false) (asyncq (sa s));
-  c_t1w : Forall (fun n => n_sync n = false) (waiters (sa s));
-  c_t2 : Forall (fun n => n_per n = per s) (pipe s);
-  c_t2w : Forall (fun n => n_per n = per s) (waiters (sa s));
-  c_t3 : Forall (fun n => n_per n <= per s) (accepted (sg s));
-  c_j : b_alive (sb s) = true ->
-        (b_peers (sb s) = true /\ b_events (sb s) = []) \/
-        (exists pre, b_events (sb s) = pre ++ [HOpened (per s)]);
-  (* no loss while both ends are running: everything accepted in this period is delivered,
-     or sits in the pipeline, in order *)
-  c_eq : a_alive (sa s) = true -> b_alive (sb s) = true ->
-         forall m, proj (per s) m (accepted (sg s)) = proj (per s) m (seen s ++ pipe s);
-  (* what was delivered or can still be delivered is a prefix of what was accepted *)
-  c_pre : forall k m,
-          prefix (proj k m (seen s ++ (if b_alive (sb s) then carrier (sl s) else [])))
-                 (proj k m (accepted (sg s)))
-}.
-
-Lemma c_pre_seen s : InvC s -> forall k m, prefix (proj k m (seen s)) (proj k m (accepted (sg s))).
-Proof.
-  intros H k m. pose proof (c_pre s H k m) as P. rewrite proj_app in P. eapply prefix_app_l. exact P.
-Qed.
-
-Lemma t2_carrier s : InvC s -> Forall (fun n => n_per n = per s) (carrier (sl s)).
-Proof. intros H. pose proof (c_t2 s H) as P. unfold pipe in P. apply Forall_app_iff in P. tauto. Qed.
-
-Lemma init_invC hs : InvC (init hs).
-Proof.
-  constructor; cbn; try apply Forall_nil; try discriminate.
-  intros k m. apply prefix_refl.
-Qed.
-
-Lemma close_a_invC notify s : InvC s -> InvC (close_a notify s).
-Proof.
-  intros H. pose proof (t2_carrier s H) as Hc. destruct H.
-  constructor; cbn; try apply Forall_nil; auto; try discriminate.
-  unfold pipe. cbn. rewrite app_nil_r. exact Hc.
-Qed.
-
-Lemma close_b_invC notify s : InvC s -> InvC (close_b notify s).
-Proof.
-  intros H. pose proof (c_pre_seen s H) as Hp. destruct H.
-  constructor; cbn; auto; try discriminate.
-  intros k m. unfold seen in *. cbn. rewrite app_nil_r. apply Hp.
-Qed.
-
 Ltac reassoc := repeat rewrite <- app_assoc; cbn [app]; try reflexivity.
-
-Lemma b_run_invC c : forall fuel s, InvC s -> InvC (b_run fuel c s).
-Proof.
-  induction fuel as [|fuel IH]; intros s H; cbn [b_run]; [exact H|].
-  destruct (b_alive (sb s)) eqn:Eb; cbn [negb]; [|exact H].
-  destruct (reserved (sb s) || (len (notifq (sb s)) <? cap_n c)); cbn [negb]; [|exact H].
-  destruct (killed (sl s)); [apply close_b_invC; exact H|].
-  (* the state with the reservation taken satisfies the invariant *)
-  assert (H1 : InvC (mkSt (per s) (sa s) (sl s)
-                      (mkB true true (notifq (sb s)) (b_events (sb s)) (b_peers (sb s)))
-                      (sh s) (sg s) (later_hints s))).
-  { destruct H. constructor; unfold seen, pipe in *; cbn in *; rewrite ?Eb in *; auto. }
-  destruct (rgate (sl s)); cbn [negb]; [|exact H1].
-  destruct (carrier (sl s)) as [|n rest] eqn:Ec.
-  - destruct (a_alive (sa s)); [exact H1|]. apply close_b_invC. exact H1.
-  - destruct (max_in c <? n_len n); [apply close_b_invC; exact H1|].
-    apply IH. destruct H. unfold seen, pipe in *; cbn in *; rewrite ?Eb, ?Ec in *.
-    constructor; unfold seen, pipe; cbn; auto.
-    + inversion c_t4; subst. assumption.
-    + intros Ha _ m. rewrite (c_eq0 Ha eq_refl m). f_equal. reassoc.
-    + intros k m. specialize (c_pre0 k m).
-      replace ((delivered (sg s) ++ notifq (sb s) ++ [n]) ++ rest)
-        with ((delivered (sg s) ++ notifq (sb s)) ++ n :: rest) by reassoc.
-      exact c_pre0.
-Qed.
 
 Lemma Forall_firstn' {A} (P : A -> Prop) n l : Forall P l -> Forall P (firstn n l).
 Proof. intros H. rewrite <- (firstn_skipn n l) in H. apply Forall_app_iff in H. tauto. Qed.
 
-Lemma Forall_skipn' {A} (P : A -> Prop) n l : Forall P l -> Forall P (skipn n l).
-Proof. intros H. rewrite <- (firstn_skipn n l) in H. apply Forall_app_iff in H. tauto. Qed.
+(* ------------------------------------------------------------------ accessors *)
+Definition cn (s : st) (x : bool) : conn := ec (gep s x).
+Definition hn (s : st) (x : bool) : hnd := eh (gep s x).
+Definition gl (s : st) (x : bool) : glog := eg (gep s x).
 
-Lemma a_round_invC c s : InvC s -> InvC (fst (a_round c s)).
+(* everything x has accepted and that is still on its way, oldest first *)
+Definition pipe (s : st) (x : bool) : list notif :=
+  carrier (glo s x) ++ e_sk (cn s x) ++ opt_list (e_cur (cn s x)) ++ e_sq (cn s x) ++ e_aq (cn s x).
+
+(* what user y received or still finds in its channel *)
+Definition seen (s : st) (y : bool) : list notif := e_del (gl s y) ++ e_nq (hn s y).
+
+Definition opened_in (k : N) (evs : list hev) : bool :=
+  existsb (fun e => match e with HOpened j => j =? k | HClosed _ => false end) evs.
+
+(* handle y will never again consider stream k open *)
+Definition dead_for (s : st) (y : bool) (k : N) : bool :=
+  negb (match e_peers (hn s y) with Some j => j =? k | None => false end) &&
+  negb (opened_in k (e_evs (hn s y))).
+
+(* the Connection of y in the current period has not finished (or has not started yet) *)
+Definition reading (s : st) (y : bool) : bool :=
+  if e_per (cn s y) <? per s then true else e_alive (cn s y).
+
+Lemma opened_in_app k a b : opened_in k (a ++ b) = opened_in k a || opened_in k b.
+Proof. unfold opened_in. apply existsb_app. Qed.
+
+(* ------------------------------------------------------------------ structural invariant *)
+Record InvP (s : st) : Prop := mkInvP {
+  p_alive : forall z, e_alive (cn s z) = true -> e_per (cn s z) = per s;
+  p_le : forall z, e_per (cn s z) <= per s;
+  p_dead : forall z, e_alive (cn s z) = false ->
+           e_sq (cn s z) = [] /\ e_aq (cn s z) = [] /\ e_sk (cn s z) = [] /\ e_cur (cn s z) = None /\
+           e_res (cn s z) = false /\ e_rwait (cn s z) = false;
+  p_unjoined : forall z, e_per (cn s z) < per s -> carrier (glo s z) = [];
+  p_kill : killed s = true -> carrier (lAB s) = [] /\ carrier (lBA s) = []
+}.
+
+Lemma init_invP hs : InvP (init hs).
 Proof.
-  intros H. unfold a_round.
-  destruct (a_alive (sa s)) eqn:Ea; cbn [negb]; [|exact H].
-  set (L0 := mkLst (parked (sa s)) (syncq (sa s)) (asyncq (sa s)) (sink (sa s)) (carrier (sl s))
-                   (hints (sa s)) (bad (sg s))).
-  set (fuel := S (opt_len (parked (sa s)) + length (syncq (sa s)) + length (asyncq (sa s)))).
-  assert (HT0 : T1L L0) by (split; [exact (c_t1s s H)|exact (c_t1a s H)]).
-  assert (Hflat : lflat L0 = pipe s) by reflexivity.
-  pose proof (fun f Hf => a_loop_core f Hf fuel c (wgate (sl s)) L0 HT0) as Hcore.
-  pose proof (a_loop_forall (fun n => n_per n = per s) fuel c (wgate (sl s)) L0 HT0) as Hfor.
-  rewrite Hflat in Hfor. specialize (Hfor (c_t2 s H)).
-  destruct (a_loop fuel c (wgate (sl s)) L0) as [cl L]. cbn [snd] in Hfor.
-  assert (HforC : Forall (fun n => n_per n = per s) (l_ca L)).
-  { unfold lflat in Hfor. apply Forall_app_iff in Hfor. tauto. }
-  pose proof (c_pre_seen s H) as Hseen.
+  constructor; intros; try destruct z; cbn in *; repeat split; auto; try discriminate; try lia.
+Qed.
+
+Ltac both H := let H1 := fresh H "t" in let H2 := fresh H "f" in
+               pose proof (H true) as H1; pose proof (H false) as H2.
+
+Ltac openP H := let a := fresh "PA" in let b := fresh "PL" in let c := fresh "PD" in
+                let d := fresh "PU" in let e := fresh "PK" in
+                destruct H as [a b c d e]; both a; both b; both c; both d.
+
+Lemma close_invP x n s : InvP s -> InvP (close x n s).
+Proof.
+  intros H. openP H. unfold cn in *.
+  constructor; intros; try destruct z; destruct x; cbn in *; auto; try discriminate;
+    repeat split; auto.
+Qed.
+
+Lemma out_phase_invP c x b s : InvP s -> e_alive (cn s x) = true -> killed s = false ->
+  InvP (fst (out_phase c x b s)).
+Proof.
+  intros H Ha Hk. openP H. unfold out_phase, cn in *.
+  destruct (a_loop _ _ _ _) as [cl L]. destruct cl.
+  - constructor; intros; try destruct z; destruct x; cbn in *; auto; try discriminate; try congruence;
+      try (rewrite PAt in * by assumption); try (rewrite PAf in * by assumption); try lia.
+  - destruct (if wgate (glo s x) then _ else _) as [sk ca].
+    constructor; intros; try destruct z; destruct x; cbn in *; auto; try discriminate; try congruence;
+      try (rewrite PAt in * by assumption); try (rewrite PAf in * by assumption); try lia.
+Qed.
+
+Lemma out_phase_frame c x b s : e_alive (cn s x) = true ->
+  let s1 := fst (out_phase c x b s) in
+  e_alive (cn s1 x) = true /\ killed s1 = killed s /\ per s1 = per s /\
+  e_per (cn s1 x) = e_per (cn s x) /\ cn s1 (negb x) = cn s (negb x) /\
+  glo s1 (negb x) = glo s (negb x) /\ hn s1 (negb x) = hn s (negb x) /\ gl s1 (negb x) = gl s (negb x) /\
+  gl s1 x = gl s x /\ e_nq (hn s1 x) = e_nq (hn s x) /\ e_evs (hn s1 x) = e_evs (hn s x) /\
+  e_peers (hn s1 x) = e_peers (hn s x) /\ e_res (cn s1 x) = e_res (cn s x) /\
+  e_rwait (cn s1 x) = e_rwait (cn s x) /\ e_shut (cn s1 x) = e_shut (cn s x).
+Proof.
+  intros Ha. unfold out_phase, cn, hn, gl in *.
+  destruct (a_loop _ _ _ _) as [cl L]. destruct cl.
+  - destruct x; cbn in *; repeat split; auto.
+  - destruct (if wgate (glo s x) then _ else _) as [sk ca].
+    destruct x; cbn in *; repeat split; auto.
+Qed.
+
+Lemma read_invP x n rest wg rg s :
+  InvP s -> carrier (glo s (negb x)) = n :: rest ->
+  InvP (push_nq x n (slo s (negb x) (mkL wg rg rest))).
+Proof.
+  intros H Ec. openP H. unfold push_nq, slo, cn in *.
+  constructor; intros; try destruct z; destruct x; unfold cn in *; cbn in *; auto; try discriminate;
+    try congruence;
+    try (match goal with
+         | Hlt : _ < _ |- _ =>
+             first [ specialize (PUt Hlt); rewrite Ec in PUt; discriminate
+                   | specialize (PUf Hlt); rewrite Ec in PUf; discriminate ]
+         end);
+    try (match goal with
+         | Hk : killed _ = true |- _ => destruct (PK Hk) as [K1 K2]; rewrite Ec in *; discriminate
+         end);
+    try (intuition congruence).
+Qed.
+
+(* a generic induction over one poll of the Connection task *)
+Lemma conn_loop_gen (P : st -> Prop) c x :
+  (forall s nfy, P s -> e_alive (cn s x) = true -> P (close x nfy s)) ->
+  (forall s b, P s -> e_alive (cn s x) = true -> killed s = false ->
+               match out_phase c x b s with (s1, true) => P (close x true s1) | (s1, false) => P s1 end) ->
+  (forall s, P s -> e_alive (cn s x) = true -> can_reserve c x s = false -> P (set_res x false true s)) ->
+  (forall s, P s -> e_alive (cn s x) = true -> can_reserve c x s = true -> P (set_res x true false s)) ->
+  (forall s n rest, P s -> e_alive (cn s x) = true -> e_res (cn s x) = true -> e_rwait (cn s x) = false ->
+      killed s = false -> carrier (glo s (negb x)) = n :: rest -> n_len n <= c_max (ecf c x) ->
+      P (push_nq x n (slo s (negb x) (mkL (wgate (glo s (negb x))) (rgate (glo s (negb x))) rest)))) ->
+  forall fuel b s, P s -> e_alive (cn s x) = true -> P (conn_loop fuel c x b s).
+Proof.
+  intros Hclose Hout Hres0 Hres1 Hread.
+  induction fuel as [|fuel IH]; intros b s H Ha; cbn [conn_loop]; [exact H|].
+  fold (cn s x). destruct (e_shut (cn s x) && (0 <? b)); [apply Hclose; assumption|].
+  destruct (killed s) eqn:Ek; [apply Hclose; assumption|].
+  pose proof (Hout s b H Ha Ek) as H1.
+  pose proof (out_phase_frame c x b s Ha) as F. cbn zeta in F.
+  destruct (out_phase c x b s) as [s1 refused]. cbn [fst] in *.
+  destruct F as (Fa & Fk & Fp & _).
+  destruct refused; [exact H1|].
+  set (b1 := b - (qlen s x - qlen s1 x)).
+  (* poll_reserve *)
+  assert (R : exists s2 go b2, reserve_phase c x b1 s1 = (s2, go, b2) /\ P s2 /\ e_alive (cn s2 x) = true /\
+                               killed s2 = false /\
+                               (go = true -> e_res (cn s2 x) = true /\ e_rwait (cn s2 x) = false)).
+  { unfold reserve_phase. fold (cn s1 x).
+    destruct (e_res (cn s1 x) && negb (e_rwait (cn s1 x))) eqn:E1.
+    - exists s1, true, b1. apply andb_true_iff in E1. destruct E1 as [A B]. apply negb_true_iff in B.
+      repeat split; auto; congruence.
+    - destruct (can_reserve c x s1) eqn:Ecr; destruct (0 <? b1).
+      + exists (set_res x true false s1), true, (b1 - 1). split; [reflexivity|]. split; [apply Hres1; assumption|].
+        unfold set_res, cn in *. destruct x; cbn in *; repeat split; auto; congruence.
+      + exists s1, false, b1. repeat split; auto; try congruence; discriminate.
+      + exists (set_res x false true s1), false, b1. split; [reflexivity|]. split; [apply Hres0; assumption|].
+        unfold set_res, cn in *. destruct x; cbn in *; repeat split; auto; try congruence; discriminate.
+      + exists s1, false, b1. repeat split; auto; try congruence; discriminate. }
+  destruct R as (s2 & go & b2 & ER & H2 & Fa2 & Fk2 & Fgo). rewrite ER.
+  destruct go; cbn [negb]; [|exact H2]. destruct (Fgo eq_refl) as [Fr2 Fw2].
+  destruct (rgate (glo s2 (negb x))) eqn:Erg; cbn [negb]; [|exact H2].
+  destruct (carrier (glo s2 (negb x))) as [|n rest] eqn:Ec.
+  - destruct (wclosed s2 (negb x)); [apply Hclose; assumption|exact H2].
+  - destruct (c_max (ecf c x) <? n_len n) eqn:Emx; [apply Hclose; assumption|].
+    apply IH.
+    + replace (mkL (wgate (glo s2 (negb x))) true rest)
+        with (mkL (wgate (glo s2 (negb x))) (rgate (glo s2 (negb x))) rest) by (now rewrite Erg).
+      apply Hread; try assumption. lia.
+    + unfold push_nq, slo, cn in *. destruct x; cbn in *; exact Fa2.
+Qed.
+
+Lemma set_res_invP x r w s : InvP s -> e_alive (cn s x) = true -> InvP (set_res x r w s).
+Proof.
+  intros H Ha. openP H. unfold set_res, cn in *.
+  constructor; intros; try destruct z; destruct x; cbn in *; auto; try discriminate; try congruence.
+Qed.
+
+Lemma conn_loop_invP c x : forall fuel b s, InvP s -> e_alive (cn s x) = true -> InvP (conn_loop fuel c x b s).
+Proof.
+  apply (conn_loop_gen InvP).
+  - intros. apply close_invP; assumption.
+  - intros s b H Ha Hk. pose proof (out_phase_invP c x b s H Ha Hk) as Q.
+    destruct (out_phase c x b s) as [s1 [|]]; cbn [fst] in Q; [apply close_invP|]; exact Q.
+  - intros. apply set_res_invP; assumption.
+  - intros. apply set_res_invP; assumption.
+  - intros s n rest H Ha _ _ _ Ec _. apply read_invP; assumption.
+Qed.
+
+Lemma conn_poll_invP c x b s : InvP s -> InvP (conn_poll c x b s).
+Proof.
+  intros H. unfold conn_poll. fold (cn s x). destruct (e_alive (cn s x)) eqn:Ea; [|exact H].
+  apply conn_loop_invP; assumption.
+Qed.
+
+Ltac brute :=
+  constructor; intros; repeat match goal with z : bool |- _ => destruct z end;
+  unfold cn, hn, gl in *; cbn in *; auto; try discriminate; try congruence; repeat split; auto; try lia;
+  try (intuition congruence).
+
+Lemma h_poll_invP fixed c x b s : InvP s -> InvP (fst (h_poll_gen fixed c x b s)).
+Proof.
+  intros H. unfold h_poll_gen. destruct (b =? 0); [exact H|].
+  destruct (e_evs (eh (gep s x))) as [|[k|k] es].
+  - destruct (h_scan _ _ _ _) as [r q].
+    assert (G : forall g, InvP (hand_over x (len q <? len (e_nq (eh (gep s x))))
+                                  (set_hnd x (mkH (e_ws (eh (gep s x))) q [] (e_peers (eh (gep s x)))
+                                                  (e_clog (eh (gep s x))) (e_cmds (eh (gep s x)))) g s))).
+    { intros g. unfold hand_over.
+      destruct (_ && _ && _) eqn:Eho; [|openP H; unfold set_hnd, cn in *; brute].
+      apply andb_true_iff in Eho. destruct Eho as [Eho _]. apply andb_true_iff in Eho. destruct Eho as [_ Ew].
+      openP H. unfold set_res, set_hnd, cn in *.
+      destruct x; cbn in *; constructor; intros; try destruct z; cbn in *; auto; try discriminate;
+        try congruence; repeat split; auto;
+        match goal with Hd : _ = false |- _ =>
+          first [ destruct (PDt Hd) as (_ & _ & _ & _ & _ & Q); congruence
+                | destruct (PDf Hd) as (_ & _ & _ & _ & _ & Q); congruence ] end. }
+    destruct r; cbn [fst]; apply G.
+  - cbn [fst]. openP H. unfold set_hnd in *. brute.
+  - cbn [fst]. openP H. unfold set_hnd in *. brute.
+Qed.
+
+Lemma live_alive s x k : live s x k = true -> e_alive (cn s x) = true /\ k = e_per (cn s x).
+Proof. unfold live, cn. intros H. apply andb_true_iff in H. destruct H. split; [assumption|lia]. Qed.
+
+Lemma wlive_alive c w : wlive c w = true -> e_alive c = true /\ n_per (w_n w) = e_per c.
+Proof. unfold wlive. intros H. apply andb_true_iff in H. destruct H. split; [assumption|lia]. Qed.
+
+Lemma send_sync_invP c x s t l : InvP s -> InvP (fst (send_sync c x s t l)).
+Proof.
+  intros H. unfold send_sync. destruct (e_peers (eh (gep s x))) as [k|]; [|exact H].
+  destruct (live s x k) eqn:El; [|exact H]. apply live_alive in El. destruct El as [Ea _].
+  destruct (len (e_sq (ec (gep s x))) <? c_s (ecf c x)); cbn [fst].
+  - openP H. unfold cn in *. brute.
+  - destruct (e_clog (eh (gep s x))); [exact H|].
+    destruct (e_cmds (eh (gep s x)) <? c_c (ecf c x)); cbn [fst]; openP H; unfold cn in *; brute.
+Qed.
+
+Lemma set_async_invP x aq ws acc ok err s : InvP s ->
+  (e_alive (cn s x) = false -> aq = []) -> InvP (set_async x aq ws acc ok err s).
+Proof. intros H Hq. openP H. unfold set_async, cn in *. brute. Qed.
+
+Lemma async_start_invP c x s i t l : InvP s -> InvP (fst (async_start c x s i t l)).
+Proof.
+  intros H. unfold async_start. destruct (find_w i _); [exact H|].
+  destruct (e_peers (eh (gep s x))) as [k|]; [|exact H].
+  destruct (live s x k) eqn:El.
+  - apply live_alive in El. destruct El as [Ea _].
+    destruct (0 <? afree _ _ _); cbn [fst]; apply set_async_invP; auto; intros Hd; congruence.
+  - cbn [fst]. apply set_async_invP; auto. intros Hd. apply (p_dead s H x Hd).
+Qed.
+
+Lemma async_poll_invP x s i : InvP s -> InvP (fst (async_poll x s i)).
+Proof.
+  intros H. unfold async_poll. destruct (find_w i _) as [w|]; [|exact H].
+  destruct (wlive (ec (gep s x)) w) eqn:El; cbn [negb].
+  - apply wlive_alive in El. destruct El as [Ea _].
+    destruct (w_asg w); cbn [fst]; [|exact H]. apply set_async_invP; auto. intros Hd. unfold cn in Hd. congruence.
+  - cbn [fst]. apply set_async_invP; auto. intros Hd. apply (p_dead s H x Hd).
+Qed.
+
+Lemma async_drop_invP c x s i : InvP s -> InvP (fst (async_drop c x s i)).
+Proof.
+  intros H. unfold async_drop. destruct (find_w i _) as [w|]; [|exact H]. cbn [fst].
+  apply set_async_invP; auto. intros Hd. apply (p_dead s H x Hd).
+Qed.
+
+Lemma open_ep_invP x p s : InvP s -> e_alive (cn s x) = false -> p = per s ->
+  InvP (open_ep x p s).
+Proof. intros H Hd Hp. subst p. openP H. unfold open_ep, cn in *. brute. Qed.
+
+Lemma open_stream_invP x s : InvP s -> InvP (fst (open_stream x s)).
+Proof.
+  intros H. unfold open_stream. fold (cn s x). fold (cn s (negb x)).
+  destruct (e_alive (cn s x)) eqn:Ea; [exact H|].
+  destruct (e_per (cn s x) <? per s) eqn:Ep; cbn [fst].
+  - apply open_ep_invP; auto.
+  - destruct (negb (e_alive (cn s (negb x))) && (e_per (cn s (negb x)) =? per s)) eqn:E; cbn [fst]; [|exact H].
+    apply andb_true_iff in E. destruct E as [E1 E2]. apply negb_true_iff in E1.
+    apply open_ep_invP; [|unfold cn in *; destruct x; cbn in *; exact Ea|reflexivity].
+    openP H. unfold cn in *.
+    constructor; intros; try destruct z; destruct x; unfold cn in *; cbn in *; auto; try discriminate;
+      try congruence; repeat split; auto; try lia; try (intuition congruence).
+Qed.
+
+Lemma kill_invP s : InvP s -> InvP (kill s).
+Proof. intros H. openP H. unfold kill, cn in *. brute. Qed.
+
+Lemma do_step_invP c s t : InvP s -> InvP (fst (do_step c s t)).
+Proof.
+  intros H. destruct t; cbn [do_step].
+  - pose proof (send_sync_invP c x s tag ln H). destruct (send_sync c x s tag ln). assumption.
+  - pose proof (async_start_invP c x s id tag ln H). destruct (async_start c x s id tag ln). assumption.
+  - pose proof (async_poll_invP x s id H). destruct (async_poll x s id). assumption.
+  - pose proof (async_drop_invP c x s id H). destruct (async_drop c x s id). assumption.
+  - cbn [fst]. apply conn_poll_invP. exact H.
+  - pose proof (h_poll_invP true c x budget s H). unfold h_poll. destruct (h_poll_gen true c x budget s). assumption.
+  - pose proof (open_stream_invP x s H). destruct (open_stream x s). assumption.
+  - destruct (e_alive (ec (gep s x))) eqn:Ea; cbn [fst]; [|exact H].
+    openP H. unfold set_conn, cn in *. brute.
+  - destruct (e_cmds (eh (gep s x)) =? 0); cbn [fst]; [exact H|]. apply kill_invP.
+    openP H. unfold set_hnd, cn in *. brute.
+  - destruct (e_cmds (eh (gep s x)) =? 0); cbn [fst]; [exact H|].
+    openP H. unfold set_hnd, cn in *. brute.
+  - cbn [fst]. openP H. unfold slo, cn in *. brute.
+  - destruct (per s =? 0); cbn [fst]; [exact H|apply kill_invP; exact H].
+Qed.
+
+(* ================================================================== the FIFO invariant
+   One direction of the stream (sender x, receiver y) depends on a small part of the state: its view. *)
+Record view := mkV {
+  v_per : N; v_killed : bool;
+  v_xalive : bool; v_xper : N;
+  v_sq : list notif; v_aq : list notif; v_cur : option notif; v_sk : list notif;
+  v_ws : list waiter; v_acc : list notif; v_car : list notif;
+  v_yalive : bool; v_yper : N;
+  v_nq : list notif; v_evs : list hev; v_peers : option N; v_del : list notif
+}.
+
+Definition dview (s : st) (x : bool) : view :=
+  let y := negb x in
+  mkV (per s) (killed s) (e_alive (cn s x)) (e_per (cn s x))
+      (e_sq (cn s x)) (e_aq (cn s x)) (e_cur (cn s x)) (e_sk (cn s x))
+      (e_ws (hn s x)) (e_acc (gl s x)) (carrier (glo s x))
+      (e_alive (cn s y)) (e_per (cn s y))
+      (e_nq (hn s y)) (e_evs (hn s y)) (e_peers (hn s y)) (e_del (gl s y)).
+
+Definition vpipe (v : view) : list notif := v_car v ++ v_sk v ++ opt_list (v_cur v) ++ v_sq v ++ v_aq v.
+Definition vseen (v : view) : list notif := v_del v ++ v_nq v.
+Definition vdead (v : view) (k : N) : bool :=
+  negb (match v_peers v with Some j => j =? k | None => false end) && negb (opened_in k (v_evs v)).
+Definition vreading (v : view) : bool := if v_yper v <? v_per v then true else v_yalive v.
+
+(* what of period k, mode m, user y has received or can still receive *)
+Definition vline (v : view) (k : N) (m : bool) : list notif :=
+  proj k m (v_del v) ++ (if vdead v k then [] else proj k m (v_nq v)) ++
+  (if (k =? v_per v) && vreading v then proj k m (v_car v) else []).
+
+Arguments opened_in : simpl never.
+Arguments proj : simpl never.
+Arguments vpipe : simpl never.
+Arguments vseen : simpl never.
+Arguments vdead : simpl never.
+Arguments vreading : simpl never.
+Arguments vline : simpl never.
+
+Record InvV (v : view) : Prop := mkInvV {
+  (* structure *)
+  i_xal : v_xalive v = true -> v_xper v = v_per v;
+  i_xle : v_xper v <= v_per v;
+  i_xdead : v_xalive v = false -> v_sq v = [] /\ v_aq v = [] /\ v_sk v = [] /\ v_cur v = None;
+  i_yal : v_yalive v = true -> v_yper v = v_per v;
+  i_yle : v_yper v <= v_per v;
+  i_unj : v_xper v < v_per v -> v_car v = [];
+  i_kill : v_killed v = true -> v_car v = [];
+  (* typing *)
+  i_t1s : Forall (fun n => n_sync n = true) (v_sq v);
+  i_t1a : Forall (fun n => n_sync n = false) (v_aq v);
+  i_t1w : Forall (fun w => n_sync (w_n w) = false /\ n_per (w_n w) <= v_xper v) (v_ws v);
+  i_t2 : Forall (fun n => n_per n = v_per v) (vpipe v);
+  i_t3 : Forall (fun n => n_per n <= v_xper v) (v_acc v);
+  i_t4 : Forall (fun n => n_per n <= v_yper v) (vseen v);
+  (* the handle of y and its Connection *)
+  i_j : v_yalive v = true ->
+        (v_peers v = Some (v_yper v) /\ v_evs v = []) \/ (exists pre, v_evs v = pre ++ [HOpened (v_yper v)]);
+  i_ev : forall j, opened_in j (v_evs v) = true -> j <= v_yper v;
+  i_pe : forall j, v_peers v = Some j -> j <= v_yper v;
+  (* no loss while both ends are running *)
+  i_eq : v_killed v = false -> v_xalive v = true -> vreading v = true ->
+         forall m, proj (v_per v) m (v_acc v) = proj (v_per v) m (vseen v ++ vpipe v);
+  (* what was or can still be delivered is a prefix of what was accepted *)
+  i_pre : forall k m, prefix (vline v k m) (proj k m (v_acc v))
+}.
+
+Definition InvD (s : st) (x : bool) : Prop := InvV (dview s x).
+
+Lemma init_invD hs x : InvD (init hs) x.
+Proof.
+  unfold InvD. destruct x; cbn; constructor; unfold vline, vpipe, vseen, vdead, vreading, proj, opened_in;
+    cbn; intros; try apply Forall_nil; auto; try discriminate; try lia;
+    try (exists []; reflexivity);
+    try (destruct (_ && _); apply prefix_refl).
+Qed.
+
+Lemma prefix_drop_tail {A} (a b c z : list A) : prefix (a ++ b ++ c) z -> prefix (a ++ b ++ []) z.
+Proof. intros H. rewrite app_nil_r. rewrite app_assoc in H. eapply prefix_app_l. exact H. Qed.
+
+Lemma prefix_drop_mid {A} (a b z : list A) : prefix (a ++ b ++ []) z -> prefix (a ++ [] ++ []) z.
+Proof. intros H. cbn. rewrite app_nil_r in *. eapply prefix_app_l. exact H. Qed.
+
+Lemma proj_ne k m (n : notif) : n_per n <> k -> proj k m [n] = [].
+Proof. intros H. unfold proj. cbn. unfold sel. destruct (n_per n =? k) eqn:E; [lia|reflexivity]. Qed.
+
+Lemma proj_none_ne k m l : Forall (fun n => n_per n <> k) l -> proj k m l = [].
+Proof.
+  intros H. apply filter_none. eapply Forall_impl; [|exact H]. cbn. intros n Hn.
+  unfold sel. destruct (n_per n =? k) eqn:E; [lia|reflexivity].
+Qed.
+
+(* ---- the sender's Connection ends ---- *)
+Definition vclose_x (v : view) : view :=
+  mkV (v_per v) (v_killed v) false (v_xper v) [] [] None [] (v_ws v) (v_acc v) (v_car v)
+      (v_yalive v) (v_yper v) (v_nq v) (v_evs v) (v_peers v) (v_del v).
+
+Lemma vclose_x_inv v : InvV v -> InvV (vclose_x v).
+Proof.
+  intros H. pose proof (i_t2 v H) as T2. unfold vpipe in T2. apply Forall_app_iff in T2.
+  destruct H. constructor; cbn; auto; try discriminate; try apply Forall_nil.
+  - unfold vpipe. cbn. rewrite app_nil_r. tauto.
+Qed.
+
+(* ---- the receiver's Connection ends ---- *)
+Definition vclose_y (v : view) : view :=
+  mkV (v_per v) (v_killed v) (v_xalive v) (v_xper v) (v_sq v) (v_aq v) (v_cur v) (v_sk v) (v_ws v) (v_acc v)
+      (v_car v) false (v_yper v) (v_nq v) (v_evs v ++ [HClosed (v_yper v)]) (v_peers v) (v_del v).
+
+Lemma vclose_y_inv v : InvV v -> v_yalive v = true -> InvV (vclose_y v).
+Proof.
+  intros H Ha. pose proof (i_yal v H Ha) as Ey. pose proof (i_pre v H) as P.
+  destruct H. constructor; cbn; auto; try discriminate.
+  - intros j. rewrite opened_in_app. cbn. rewrite orb_false_r. auto.
+  - unfold vreading. cbn. rewrite Ey. rewrite N.ltb_irrefl. discriminate.
+  - intros k m. specialize (P k m). unfold vline, vdead, vreading in *. cbn.
+    rewrite opened_in_app. cbn. rewrite orb_false_r.
+    rewrite Ey, N.ltb_irrefl. rewrite andb_false_r. eapply prefix_drop_tail. exact P.
+Qed.
+
+(* ---- the outbound phase of the sender's Connection ---- *)
+Definition vL (v : view) (h : list bool) (b : N) : lst :=
+  mkLst (v_cur v) (v_sq v) (v_aq v) (v_sk v) (v_car v) h b.
+
+Lemma vL_flat v h b : lflat (vL v h b) = vpipe v.
+Proof. reflexivity. Qed.
+
+(* start_send refused a notification: the Connection closes without flushing *)
+Definition vout_closed (v : view) (L : lst) : view :=
+  mkV (v_per v) (v_killed v) false (v_xper v) [] [] None [] (v_ws v) (v_acc v) (l_ca L)
+      (v_yalive v) (v_yper v) (v_nq v) (v_evs v) (v_peers v) (v_del v).
+
+Definition vout_open (v : view) (L : lst) (wg : bool) (ws : list waiter) : view :=
+  mkV (v_per v) (v_killed v) true (v_xper v) (l_sq L) (l_aq L) (l_cur L)
+      (if wg then [] else l_sk L) ws (v_acc v) (if wg then l_ca L ++ l_sk L else l_ca L)
+      (v_yalive v) (v_yper v) (v_nq v) (v_evs v) (v_peers v) (v_del v).
+
+Lemma vline_car_irrelevant v v' k m :
+  v_per v' = v_per v -> v_yalive v' = v_yalive v -> v_yper v' = v_yper v -> v_nq v' = v_nq v ->
+  v_evs v' = v_evs v -> v_peers v' = v_peers v -> v_del v' = v_del v ->
+  vline v' k m = proj k m (v_del v) ++ (if vdead v k then [] else proj k m (v_nq v)) ++
+                 (if (k =? v_per v) && vreading v then proj k m (v_car v') else []).
+Proof.
+  intros E1 E2 E3 E4 E5 E6 E7. unfold vline, vdead, vreading. now rewrite E1, E2, E3, E4, E5, E6, E7.
+Qed.
+
+Lemma opened_in_last k pre j : opened_in k (pre ++ [HOpened j]) = opened_in k pre || (j =? k).
+Proof. rewrite opened_in_app. unfold opened_in at 2. cbn. now rewrite orb_false_r. Qed.
+
+(* while y can still read the carrier of the current period, its handle has not written that period off *)
+Lemma vmid_per v m : InvV v -> vreading v = true ->
+  (if vdead v (v_per v) then [] else proj (v_per v) m (v_nq v)) = proj (v_per v) m (v_nq v).
+Proof.
+  intros H Hr. destruct (vdead v (v_per v)) eqn:Ed; [|reflexivity]. symmetry.
+  unfold vreading in Hr. destruct (v_yper v <? v_per v) eqn:El.
+  - pose proof (i_t4 v H) as T4. unfold vseen in T4. apply Forall_app_iff in T4. destruct T4 as [_ T4].
+    apply (proj_above (v_yper v)); [exact T4|lia].
+  - pose proof (i_yal v H Hr) as Ey. unfold vdead in Ed. apply andb_true_iff in Ed. destruct Ed as [E1 E2].
+    destruct (i_j v H Hr) as [[Ep _]|[pre Ee]].
+    + rewrite Ep, Ey, N.eqb_refl in E1. discriminate.
+    + rewrite Ee, opened_in_last, Ey, N.eqb_refl, orb_true_r in E2. discriminate.
+Qed.
+
+Lemma vdead_alive v : InvV v -> v_yalive v = true -> vdead v (v_per v) = false.
+Proof.
+  intros H Ha. pose proof (i_yal v H Ha) as Ey. destruct (vdead v (v_per v)) eqn:Ed; [|reflexivity].
+  unfold vdead in Ed. apply andb_true_iff in Ed. destruct Ed as [E1 E2].
+  destruct (i_j v H Ha) as [[Ep _]|[pre Ee]].
+  - rewrite Ep, Ey, N.eqb_refl in E1. discriminate.
+  - rewrite Ee, opened_in_last, Ey, N.eqb_refl, orb_true_r in E2. discriminate.
+Qed.
+
+(* the carrier may grow by whatever the sender had accepted, in order *)
+Lemma vline_grow v v' : InvV v -> v_killed v = false -> v_xalive v = true ->
+  v_per v' = v_per v -> v_yalive v' = v_yalive v -> v_yper v' = v_yper v -> v_nq v' = v_nq v ->
+  v_evs v' = v_evs v -> v_peers v' = v_peers v -> v_del v' = v_del v -> v_acc v' = v_acc v ->
+  (forall m, exists r, proj (v_per v) m (vpipe v) = proj (v_per v) m (v_car v') ++ r) ->
+  forall k m, prefix (vline v' k m) (proj k m (v_acc v')).
+Proof.
+  intros H Hk Ha E1 E2 E3 E4 E5 E6 E7 E8 Hc k m.
+  rewrite (vline_car_irrelevant v v' k m E1 E2 E3 E4 E5 E6 E7), E8.
+  pose proof (i_pre v H k m) as P. unfold vline in P.
+  destruct ((k =? v_per v) && vreading v) eqn:Eb.
+  - apply andb_true_iff in Eb. destruct Eb as [Ek Er]. assert (k = v_per v) by lia. subst k.
+    rewrite (vmid_per v m H Er). rewrite (i_eq v H Hk Ha Er m). unfold vseen. rewrite !proj_app.
+    destruct (Hc m) as [r Hr]. rewrite Hr. exists r. now rewrite <- !app_assoc.
+  - exact P.
+Qed.
+
+Lemma vout_inv v fuel mx wg h b ws' :
+  InvV v -> v_killed v = false -> v_xalive v = true ->
+  Forall (fun w => n_sync (w_n w) = false /\ n_per (w_n w) <= v_xper v) ws' ->
+  match a_loop fuel mx wg (vL v h b) with
+  | (true, L) => InvV (vout_closed v L)
+  | (false, L) => InvV (vout_open v L wg ws')
+  end.
+Proof.
+  intros H Hk Ha Hws.
+  assert (HT0 : T1L (vL v h b)) by (split; [exact (i_t1s v H)|exact (i_t1a v H)]).
+  pose proof (fun f Hf => a_loop_core f Hf fuel mx wg (vL v h b) HT0) as Hcore.
+  pose proof (a_loop_forall (fun n => n_per n = v_per v) fuel mx wg (vL v h b) HT0) as Hfor.
+  rewrite vL_flat in Hfor. specialize (Hfor (i_t2 v H)).
+  destruct (a_loop fuel mx wg (vL v h b)) as [cl L]. cbn [snd] in Hfor.
+  pose proof Hfor as Hfor'. unfold lflat in Hfor'. rewrite !Forall_app_iff in Hfor'.
+  destruct Hfor' as (F1 & F2 & F3 & F4 & F5).
+  pose proof (i_xal v H Ha) as Ex.
   destruct cl.
-  - (* start_send refused a notification: the sender closes *)
-    cbn [fst]. constructor; cbn; try apply Forall_nil; try discriminate.
-    + unfold pipe. cbn. rewrite app_nil_r. exact HforC.
-    + exact (c_t3 s H).
-    + exact (c_j s H).
-    + intros k m. unfold seen. cbn. destruct (b_alive (sb s)) eqn:Eb.
-      * apply (pre_from_eq (per s)); [|exact HforC|exact Hseen].
-        intros m'. destruct (Hcore (sel (per s) m') (sel_pure _ _)) as [r Hr].
-        exists r. rewrite (c_eq s H Ea Eb m'). rewrite proj_app. rewrite Hflat in Hr.
-        unfold proj at 2. rewrite Hr. reflexivity.
-      * pose proof (c_pre s H k m) as P. rewrite Eb in P. exact P.
+  - assert (P : forall k m, prefix (vline (vout_closed v L) k m) (proj k m (v_acc (vout_closed v L)))).
+    { apply (vline_grow v); auto. intros m. destruct (Hcore (sel (v_per v) m) (sel_pure _ _)) as [r Hr].
+      exists r. rewrite vL_flat in Hr. exact Hr. }
+    destruct H. constructor; cbn; auto; try discriminate; try apply Forall_nil.
+    + intros Hlt. lia.
+    + congruence.
+    + unfold vpipe. cbn. rewrite app_nil_r. exact F1.
   - assert (HTL : T1L L) by (destruct (Hcore (sel 0 true) (sel_pure _ _)); assumption).
-    assert (Hfl : forall f, pure f -> filter f (lflat L) = filter f (pipe s)).
-    { intros f Hf. destruct (Hcore f Hf) as [_ E]. rewrite E, Hflat. reflexivity. }
+    assert (Hfl : forall f, pure f -> filter f (lflat L) = filter f (vpipe v)).
+    { intros f Hf. destruct (Hcore f Hf) as [_ E]. rewrite E, vL_flat. reflexivity. }
     destruct HTL as [HTs HTa].
-    destruct (b_alive (sb s)) eqn:Eb; cbn [negb].
-    + (* still open: flush, then the blocked async senders that fit are admitted *)
-      cbn [fst].
-      set (free := N.to_nat (cap_a c - len (l_aq L))).
-      assert (Hflush : forall sk ca, (sk, ca) = (if wgate (sl s) then ([], l_ca L ++ l_sk L) else (l_sk L, l_ca L)) ->
-                ca ++ sk = l_ca L ++ l_sk L /\ Forall (fun n => n_per n = per s) ca).
-      { intros sk ca E. unfold lflat in Hfor. rewrite !Forall_app_iff in Hfor.
-        destruct (wgate (sl s)); inversion E; subst.
-        - rewrite app_nil_r. split; [reflexivity|]. apply Forall_app_iff. tauto.
-        - split; [reflexivity|tauto]. }
-      destruct (if wgate (sl s) then ([], l_ca L ++ l_sk L) else (l_sk L, l_ca L)) as [sk ca] eqn:Efl.
-      destruct (Hflush sk ca eq_refl) as [Ecs Hca]. clear Hflush.
-      assert (Epipe : forall adm, ca ++ sk ++ opt_list (l_cur L) ++ l_sq L ++ l_aq L ++ adm = lflat L ++ adm).
-      { intros adm. unfold lflat. rewrite (app_assoc ca sk). rewrite Ecs. reassoc. }
-      pose proof (c_t1w s H) as Hw1. pose proof (c_t2w s H) as Hw2.
-      constructor; unfold seen, pipe; cbn; rewrite ?Eb.
-      * exact HTs.
-      * apply Forall_app_iff. split; [exact HTa|]. apply Forall_firstn'. exact Hw1.
-      * apply Forall_skipn'. exact Hw1.
-      * rewrite Epipe. apply Forall_app_iff. split; [exact Hfor|]. apply Forall_firstn'. exact Hw2.
-      * apply Forall_skipn'. exact Hw2.
-      * apply Forall_app_iff. split; [exact (c_t3 s H)|].
-        eapply Forall_impl; [|apply Forall_firstn'; exact Hw2]. cbn. intros n Hn. lia.
-      * intros _. exact (c_j s H Eb).
-      * intros _ _ m. rewrite Epipe. rewrite !filter_app.
-        pose proof (c_eq s H Ea Eb m) as E. unfold proj, seen in E. rewrite !filter_app in E.
-        rewrite E. rewrite (Hfl _ (sel_pure _ _)). reassoc.
-      * intros k m. rewrite (filter_app _ (accepted (sg s))). apply prefix_ext.
-        apply (pre_from_eq (per s) (accepted (sg s)) (delivered (sg s) ++ notifq (sb s)) ca);
-          [|exact Hca|exact Hseen].
-        intros m'. pose proof (c_eq s H Ea Eb m') as E. unfold proj, seen in E |- *.
-        rewrite filter_app in E. rewrite <- (Hfl _ (sel_pure (per s) m')) in E.
-        unfold lflat in E. rewrite (app_assoc (l_ca L)) in E. rewrite <- Ecs in E.
-        rewrite <- !app_assoc in E. rewrite (filter_app _ ca) in E.
-        eexists. rewrite E. reflexivity.
-    + (* the receiver is gone: EOF on the inbound substream *)
-      cbn [fst]. destruct (if wgate (sl s) then ([], l_ca L ++ l_sk L) else (l_sk L, l_ca L)) as [sk ca] eqn:Efl.
-      assert (Hca : Forall (fun n => n_per n = per s) ca).
-      { unfold lflat in Hfor. rewrite !Forall_app_iff in Hfor.
-        destruct (wgate (sl s)); inversion Efl; subst; [apply Forall_app_iff|]; tauto. }
-      constructor; cbn; try apply Forall_nil; try discriminate.
-      * unfold pipe. cbn. rewrite app_nil_r. exact Hca.
-      * exact (c_t3 s H).
-      * rewrite Eb. discriminate.
-      * intros k m. unfold seen. cbn. rewrite Eb.
-        pose proof (c_pre s H k m) as P. rewrite Eb in P. exact P.
+    assert (Epipe : vpipe (vout_open v L wg ws') = lflat L).
+    { unfold vpipe, lflat. cbn. destruct wg; reassoc. }
+    assert (P : forall k m, prefix (vline (vout_open v L wg ws') k m) (proj k m (v_acc (vout_open v L wg ws')))).
+    { apply (vline_grow v); auto. intros m. unfold proj. rewrite <- (Hfl _ (sel_pure (v_per v) m)).
+      unfold lflat. cbn. destruct wg.
+      - eexists. rewrite (app_assoc (l_ca L)). rewrite filter_app. reflexivity.
+      - eexists. rewrite filter_app. reflexivity. }
+    destruct H. constructor; cbn; auto; try discriminate.
+    + intros Hlt. lia.
+    + congruence.
+    + rewrite Epipe. exact Hfor.
+    + intros _ _ Hr m. unfold vreading in Hr. cbn in Hr. rewrite Epipe. unfold vseen. cbn.
+      rewrite (i_eq0 Hk Ha Hr m). unfold vseen. rewrite !proj_app. f_equal.
+      unfold proj. now rewrite Hfl by apply sel_pure.
 Qed.
 
-Lemma rounds_invC c : forall fuel s, InvC s -> InvC (rounds fuel c s).
+(* ---- the receiver's Connection reads one frame into its user channel ---- *)
+Definition vread (v : view) (n : notif) (rest : list notif) : view :=
+  mkV (v_per v) (v_killed v) (v_xalive v) (v_xper v) (v_sq v) (v_aq v) (v_cur v) (v_sk v) (v_ws v) (v_acc v)
+      rest (v_yalive v) (v_yper v) (v_nq v ++ [n]) (v_evs v) (v_peers v) (v_del v).
+
+Lemma vread_inv v n rest : InvV v -> v_yalive v = true -> v_car v = n :: rest -> InvV (vread v n rest).
 Proof.
-  induction fuel as [|fuel IH]; intros s H; cbn [rounds]; [exact H|].
-  pose proof (a_round_invC c s H) as H1. destruct (a_round c s) as [s1 again]. cbn [fst] in H1.
-  pose proof (b_run_invC c (S (length (carrier (sl s1)))) s1 H1) as H2.
-  destruct again; [apply IH; exact H2|].
-  destruct (a_alive _ && negb _); [apply a_round_invC|]; exact H2.
+  intros H Ha Ec. pose proof (i_yal v H Ha) as Ey.
+  pose proof (i_t2 v H) as T2. unfold vpipe in T2. rewrite Ec in T2. cbn in T2. inversion T2 as [|? ? Hn T2']; subst.
+  assert (Hr : vreading v = true) by (unfold vreading; rewrite Ey, N.ltb_irrefl; exact Ha).
+  pose proof (vdead_alive v H Ha) as Hdead.
+  pose proof (i_pre v H) as P.
+  destruct H. constructor; cbn.
+  - assumption.
+  - assumption.
+  - assumption.
+  - assumption.
+  - assumption.
+  - intros Hlt. specialize (i_unj0 Hlt). congruence.
+  - intros Hkl. specialize (i_kill0 Hkl). congruence.
+  - assumption.
+  - assumption.
+  - assumption.
+  - unfold vpipe. cbn. exact T2'.
+  - assumption.
+  - unfold vseen in *. cbn. rewrite app_assoc. apply Forall_app_iff. split; [assumption|].
+    repeat constructor. lia.
+  - assumption.
+  - assumption.
+  - assumption.
+  - intros Hk Hx _ m. unfold vseen, vpipe in *. cbn. rewrite (i_eq0 Hk Hx Hr m). rewrite Ec. f_equal. reassoc.
+  - intros k m. specialize (P k m). unfold vline in *.
+    replace (vdead (vread v n rest) k) with (vdead v k) by reflexivity.
+    replace (vreading (vread v n rest)) with (vreading v) by reflexivity. cbn.
+    rewrite Ec in P. rewrite Hr in *. rewrite andb_true_r in *.
+    destruct (k =? v_per v) eqn:Ek.
+    + assert (k = v_per v) by lia. subst k. rewrite Hdead in *.
+      rewrite proj_app. change (n :: rest) with ([n] ++ rest) in P. rewrite proj_app in P.
+      rewrite <- !app_assoc in *. exact P.
+    + rewrite proj_app. rewrite (proj_ne k m n) by lia. rewrite !app_nil_r in *. exact P.
 Qed.
 
-Lemma settle_invC c s : InvC s -> InvC (settle c s).
-Proof. intros H. unfold settle. apply rounds_invC. apply b_run_invC. exact H. Qed.
+(* ---- the handle of the receiver ---- *)
+Lemma h_scan_spec peers : forall b q r q',
+  h_scan true peers b q = (r, q') ->
+  exists sk, q = sk ++ opt_list r ++ q' /\ Forall (fun n => passes true peers n = false) sk /\
+             (forall n, r = Some n -> passes true peers n = true).
+Proof.
+  induction b as [|b IH]; intros q r q' H; cbn [h_scan] in H.
+  - inversion H; subst. exists []. repeat split; [constructor|discriminate].
+  - destruct q as [|n t].
+    + inversion H; subst. exists []. repeat split; [constructor|discriminate].
+    + destruct (passes true peers n) eqn:Ep.
+      * inversion H; subst. exists []. repeat split; [constructor|]. intros n0 E. inversion E; subst. exact Ep.
+      * destruct (IH t r q' H) as [sk [E [F G]]]. exists (n :: sk). rewrite E. repeat split; auto.
+Qed.
+
+Lemma passes_per k n : passes true (Some k) n = false -> n_per n <> k.
+Proof. cbn. intros H. lia. Qed.
+
+Lemma vline_flip v v' k m z :
+  v_per v' = v_per v -> v_yalive v' = v_yalive v -> v_yper v' = v_yper v -> v_nq v' = v_nq v ->
+  v_del v' = v_del v -> v_car v' = v_car v ->
+  (vdead v k = true -> vdead v' k = true) ->
+  (vdead v k = false -> vdead v' k = true -> (k =? v_per v) && vreading v = false) ->
+  prefix (vline v k m) z -> prefix (vline v' k m) z.
+Proof.
+  intros E1 E2 E3 E4 E5 E6 Hd Hf P. unfold vline in *.
+  replace (vreading v') with (vreading v) by (unfold vreading; now rewrite E1, E2, E3).
+  rewrite E1, E4, E5, E6.
+  destruct (vdead v k) eqn:D1.
+  - rewrite (Hd eq_refl). exact P.
+  - destruct (vdead v' k) eqn:D2; [|exact P].
+    rewrite (Hf eq_refl eq_refl) in *. eapply prefix_drop_mid. exact P.
+Qed.
+
+Definition vevent (v : view) (p : option N) (es : list hev) : view :=
+  mkV (v_per v) (v_killed v) (v_xalive v) (v_xper v) (v_sq v) (v_aq v) (v_cur v) (v_sk v) (v_ws v) (v_acc v)
+      (v_car v) (v_yalive v) (v_yper v) (v_nq v) es p (v_del v).
+
+Lemma vevent_inv v e es :
+  InvV v -> v_evs v = e :: es ->
+  InvV (vevent v (match e with HOpened j => Some j | HClosed _ => None end) es).
+Proof.
+  intros H Ee.
+  assert (Hop : forall k, opened_in k (v_evs v) =
+                          (match e with HOpened j => j =? k | HClosed _ => false end) || opened_in k es).
+  { intros k. rewrite Ee. reflexivity. }
+  assert (Hj : v_yalive v = true -> (es = [] /\ e = HOpened (v_yper v)) \/
+                                    (exists pre, es = pre ++ [HOpened (v_yper v)])).
+  { intros Ha. destruct (i_j v H Ha) as [[_ E]|[pre E]]; [congruence|].
+    rewrite Ee in E. destruct pre as [|x pre]; cbn in E; inversion E; subst.
+    - left. split; reflexivity.
+    - right. now exists pre. }
+  pose proof (i_pre v H) as P. pose proof (i_ev v H) as EV. pose proof (i_pe v H) as PE.
+  pose proof (i_yal v H) as YA.
+  destruct H. constructor; cbn.
+  - assumption.
+  - assumption.
+  - assumption.
+  - assumption.
+  - assumption.
+  - assumption.
+  - assumption.
+  - assumption.
+  - assumption.
+  - assumption.
+  - assumption.
+  - assumption.
+  - assumption.
+  - intros Ha. destruct (Hj Ha) as [[E1 E2]|E]; [left; subst; split; reflexivity|right; exact E].
+  - intros j Hjn. apply EV. rewrite Hop, Hjn. apply orb_true_r.
+  - intros j Hjn. destruct e as [j'|j']; [|discriminate]. inversion Hjn; subst.
+    apply EV. rewrite Hop, N.eqb_refl. reflexivity.
+  - intros Hk Hx Hr m. apply (i_eq0 Hk Hx Hr m).
+  - intros k m. apply (vline_flip v); try reflexivity; [| |apply P].
+    + unfold vdead. cbn. rewrite Hop. intros D. apply andb_true_iff in D. destruct D as [D1 D2].
+      apply negb_true_iff in D2. apply orb_false_iff in D2. destruct D2 as [D2 D3].
+      rewrite D3. destruct e as [j|j]; cbn; [rewrite D2|]; reflexivity.
+    + intros D1 D2. destruct ((k =? v_per v) && vreading v) eqn:Eb; [exfalso|reflexivity].
+      apply andb_true_iff in Eb. destruct Eb as [Ek Er]. assert (k = v_per v) by lia. subst k.
+      unfold vdead in D1, D2. cbn in D2. rewrite Hop in D1.
+      apply andb_true_iff in D2. destruct D2 as [D2 D3]. apply negb_true_iff in D3.
+      unfold vreading in Er. destruct (v_yper v <? v_per v) eqn:El.
+      * (* y has not joined the period: its handle cannot know it *)
+        rewrite D3, orb_false_r in D1. apply andb_false_iff in D1.
+        destruct D1 as [D1|D1]; apply negb_false_iff in D1.
+        -- destruct (v_peers v) as [j|] eqn:Ep; [|discriminate]. specialize (PE j eq_refl). lia.
+        -- specialize (EV (v_per v)). rewrite Hop, D1 in EV. specialize (EV eq_refl). lia.
+      * specialize (YA Er). destruct (Hj Er) as [[E1 E2]|[pre E]].
+        -- subst. cbn in D2. rewrite YA, N.eqb_refl in D2. discriminate.
+        -- rewrite E, opened_in_last, YA, N.eqb_refl, orb_true_r in D3. discriminate.
+Qed.
+
+Definition vscan (v : view) (r : option notif) (q : list notif) : view :=
+  mkV (v_per v) (v_killed v) (v_xalive v) (v_xper v) (v_sq v) (v_aq v) (v_cur v) (v_sk v) (v_ws v) (v_acc v)
+      (v_car v) (v_yalive v) (v_yper v) q (v_evs v) (v_peers v) (v_del v ++ opt_list r).
+
+Lemma vscan_inv v b r q :
+  InvV v -> v_evs v = [] -> h_scan true (v_peers v) b (v_nq v) = (r, q) -> InvV (vscan v r q).
+Proof.
+  intros H Ee Hs. destruct (h_scan_spec _ _ _ _ _ Hs) as [sk [Eq [Fsk Hr]]].
+  (* whatever the filter rejects belongs to a stream the handle has written off *)
+  assert (Hskip : forall k m, vdead v k = false -> proj k m sk = []).
+  { intros k m D. unfold vdead in D. rewrite Ee in D. cbn in D. rewrite andb_true_r in D.
+    apply negb_false_iff in D. destruct (v_peers v) as [j|] eqn:Ep; [|discriminate].
+    assert (j = k) by lia. subst j. apply proj_none_ne.
+    eapply Forall_impl; [|exact Fsk]. cbn. intros n Hn. lia. }
+  assert (Hdel : forall k m, vdead v k = true -> proj k m (opt_list r) = []).
+  { intros k m D. destruct r as [n|]; [|reflexivity]. specialize (Hr n eq_refl).
+    unfold vdead in D. apply andb_true_iff in D. destruct D as [D _]. apply negb_true_iff in D.
+    destruct (v_peers v) as [j|]; [|discriminate]. cbn in Hr. apply proj_ne. lia. }
+  pose proof (i_pre v H) as P. pose proof (i_t4 v H) as T4. pose proof (i_yal v H) as YA.
+  pose proof (i_j v H) as J.
+  destruct H. constructor; cbn.
+  - assumption.
+  - assumption.
+  - assumption.
+  - assumption.
+  - assumption.
+  - assumption.
+  - assumption.
+  - assumption.
+  - assumption.
+  - assumption.
+  - assumption.
+  - assumption.
+  - unfold vseen in *. cbn. rewrite Eq in T4. rewrite !Forall_app_iff in *. tauto.
+  - assumption.
+  - assumption.
+  - assumption.
+  - intros Hk Hx Hrd m. change (vreading v = true) in Hrd.
+    rewrite (i_eq0 Hk Hx Hrd m). unfold vseen. cbn. rewrite Eq. rewrite !proj_app.
+    assert (Es : proj (v_per v) m sk = []).
+    { unfold vreading in Hrd. destruct (v_yper v <? v_per v) eqn:El.
+      - apply (proj_above (v_yper v)); [|lia]. unfold vseen in T4. rewrite Eq in T4.
+        rewrite !Forall_app_iff in T4. tauto.
+      - apply Hskip. apply vdead_alive; [constructor; assumption|exact Hrd]. }
+    rewrite Es. reassoc.
+  - intros k m. specialize (P k m). unfold vline in *.
+    replace (vdead (vscan v r q) k) with (vdead v k) by reflexivity.
+    replace (vreading (vscan v r q)) with (vreading v) by reflexivity. cbn.
+    rewrite proj_app. destruct (vdead v k) eqn:D.
+    + rewrite (Hdel k m D), app_nil_r. exact P.
+    + rewrite Eq in P. rewrite !proj_app in P. rewrite (Hskip k m D) in P. cbn [app] in P.
+      rewrite <- !app_assoc in *. exact P.
+Qed.
+
+(* ---- the sender's user ---- *)
+Definition vaccept (v : view) (n : notif) (ws : list waiter) : view :=
+  mkV (v_per v) (v_killed v) (v_xalive v) (v_xper v)
+      (if n_sync n then v_sq v ++ [n] else v_sq v) (if n_sync n then v_aq v else v_aq v ++ [n])
+      (v_cur v) (v_sk v) ws (v_acc v ++ [n]) (v_car v)
+      (v_yalive v) (v_yper v) (v_nq v) (v_evs v) (v_peers v) (v_del v).
 
 Lemma filter_insert_mid {A} (f : A -> bool) X sq n aq :
   filter f aq = [] \/ f n = false ->
@@ -452,599 +985,541 @@ Proof.
   - cbn. rewrite H. now rewrite !app_nil_r.
 Qed.
 
-Lemma send_sync_invC c s t l : InvC s -> InvC (fst (send_sync c s t l)).
+Lemma vaccept_inv v n ws :
+  InvV v -> v_xalive v = true -> n_per n = v_xper v ->
+  Forall (fun w => n_sync (w_n w) = false /\ n_per (w_n w) <= v_xper v) ws ->
+  InvV (vaccept v n ws).
 Proof.
-  intros H. unfold send_sync. destruct (a_sink (sh s)) as [k|]; [|exact H].
-  unfold live. destruct (k =? per s) eqn:Ek; cbn [andb]; [|exact H].
-  destruct (a_alive (sa s)) eqn:Ea; [|exact H].
-  assert (k = per s) by lia. subst k.
-  destruct (len (syncq (sa s)) <? cap_s c).
-  - cbn [fst]. set (n := mkN (per s) true t l).
-    pose proof (c_t2 s H) as T2. unfold pipe in T2. rewrite !Forall_app_iff in T2.
-    destruct T2 as (T2a & T2b & T2c & T2d & T2e).
-    constructor; unfold seen, pipe; cbn.
-    + apply Forall_app_iff. split; [exact (c_t1s s H)|]. repeat constructor.
-    + exact (c_t1a s H).
-    + exact (c_t1w s H).
-    + rewrite !Forall_app_iff. repeat split; auto; repeat constructor.
-    + exact (c_t2w s H).
-    + apply Forall_app_iff. split; [exact (c_t3 s H)|]. repeat constructor. cbn. lia.
-    + exact (c_j s H).
-    + intros _ Eb m. rewrite filter_app. pose proof (c_eq s H Ea Eb m) as E.
-      unfold proj, seen, pipe in E. rewrite E.
-      replace ((delivered (sg s) ++ notifq (sb s)) ++ carrier (sl s) ++ sink (sa s) ++
-               opt_list (parked (sa s)) ++ (syncq (sa s) ++ [n]) ++ asyncq (sa s))
-        with (((delivered (sg s) ++ notifq (sb s)) ++ carrier (sl s) ++ sink (sa s) ++
-               opt_list (parked (sa s))) ++ (syncq (sa s) ++ [n]) ++ asyncq (sa s)) by reassoc.
+  intros H Ha Hn Hws. pose proof (i_xal v H Ha) as Ex. pose proof (i_pre v H) as P.
+  pose proof (i_t2 v H) as T2. unfold vpipe in T2. rewrite !Forall_app_iff in T2.
+  destruct T2 as (T2a & T2b & T2c & T2d & T2e).
+  pose proof (i_t1a v H) as T1a.
+  destruct H. constructor; cbn.
+  - assumption.
+  - assumption.
+  - intros Hd. congruence.
+  - assumption.
+  - assumption.
+  - assumption.
+  - assumption.
+  - destruct (n_sync n) eqn:Em; [|assumption]. apply Forall_app_iff. split; [assumption|]. repeat constructor. exact Em.
+  - destruct (n_sync n) eqn:Em; [assumption|]. apply Forall_app_iff. split; [assumption|]. repeat constructor. exact Em.
+  - assumption.
+  - unfold vpipe. cbn. destruct (n_sync n); rewrite !Forall_app_iff; repeat split; auto;
+      repeat constructor; lia.
+  - apply Forall_app_iff. split; [assumption|]. repeat constructor. lia.
+  - assumption.
+  - assumption.
+  - assumption.
+  - assumption.
+  - intros Hk _ Hr m. change (vreading v = true) in Hr. rewrite proj_app. rewrite (i_eq0 Hk Ha Hr m).
+    unfold vseen, vpipe. cbn. unfold proj. destruct (n_sync n) eqn:Em.
+    + replace ((v_del v ++ v_nq v) ++ v_car v ++ v_sk v ++ opt_list (v_cur v) ++ (v_sq v ++ [n]) ++ v_aq v)
+        with (((v_del v ++ v_nq v) ++ v_car v ++ v_sk v ++ opt_list (v_cur v)) ++ (v_sq v ++ [n]) ++ v_aq v)
+        by reassoc.
       rewrite filter_insert_mid.
       * f_equal. f_equal. reassoc.
-      * destruct m; [left|right; unfold sel; cbn; apply andb_false_r]. apply filter_none.
-        eapply Forall_impl; [|exact (c_t1a s H)]. cbn. intros x Hx. unfold sel.
-        rewrite Hx. cbn. apply andb_false_r.
-    + intros k m. rewrite (filter_app _ (accepted (sg s))). apply prefix_ext. exact (c_pre s H k m).
-  - destruct (a_clogged (sh s)); [exact H|]. cbn [fst].
-    destruct H. constructor; unfold seen, pipe in *; cbn in *; auto.
+      * destruct m; [left|right; unfold sel; rewrite Em; cbn; apply andb_false_r]. apply filter_none.
+        eapply Forall_impl; [|exact T1a]. cbn. intros x Hx. unfold sel. rewrite Hx. cbn. apply andb_false_r.
+    + rewrite <- filter_app. f_equal. reassoc.
+  - intros k m. specialize (P k m). rewrite proj_app. apply prefix_ext. exact P.
 Qed.
 
-Lemma send_async_invC s t l : InvC s -> InvC (fst (send_async s t l)).
+Definition vsetws (v : view) (ws : list waiter) : view :=
+  mkV (v_per v) (v_killed v) (v_xalive v) (v_xper v) (v_sq v) (v_aq v) (v_cur v) (v_sk v) ws (v_acc v) (v_car v)
+      (v_yalive v) (v_yper v) (v_nq v) (v_evs v) (v_peers v) (v_del v).
+
+Lemma vsetws_inv v ws :
+  InvV v -> Forall (fun w => n_sync (w_n w) = false /\ n_per (w_n w) <= v_xper v) ws -> InvV (vsetws v ws).
+Proof. intros H Hws. destruct H. constructor; cbn; assumption. Qed.
+
+(* ---- the protocol: opening, killing ---- *)
+Definition vnewper (v : view) : view :=
+  mkV (v_per v + 1) false (v_xalive v) (v_xper v) (v_sq v) (v_aq v) (v_cur v) (v_sk v) (v_ws v) (v_acc v) []
+      (v_yalive v) (v_yper v) (v_nq v) (v_evs v) (v_peers v) (v_del v).
+
+Lemma vnewper_inv v : InvV v -> v_xalive v = false -> v_yalive v = false -> v_yper v = v_per v ->
+  InvV (vnewper v).
 Proof.
-  intros H. unfold send_async. destruct (a_sink (sh s)) as [k|]; [|exact H].
-  unfold live. destruct (k =? per s) eqn:Ek; cbn [andb].
-  - destruct (a_alive (sa s)) eqn:Ea.
-    + assert (k = per s) by lia. subst k. cbn [fst].
-      destruct H. constructor; unfold seen, pipe in *; cbn in *; auto.
-      * apply Forall_app_iff. split; [assumption|]. repeat constructor.
-      * apply Forall_app_iff. split; [assumption|]. repeat constructor.
-    + cbn [fst]. destruct H. constructor; unfold seen, pipe in *; cbn in *; auto.
-  - cbn [fst]. destruct H. constructor; unfold seen, pipe in *; cbn in *; auto.
+  intros H Hx Hy Ey. pose proof (i_pre v H) as P. destruct (i_xdead v H Hx) as (Q1 & Q2 & Q3 & Q4).
+  destruct H. constructor; cbn.
+  - congruence.
+  - lia.
+  - assumption.
+  - congruence.
+  - lia.
+  - reflexivity.
+  - reflexivity.
+  - assumption.
+  - assumption.
+  - assumption.
+  - unfold vpipe. cbn. rewrite Q1, Q2, Q3, Q4. constructor.
+  - assumption.
+  - assumption.
+  - congruence.
+  - assumption.
+  - assumption.
+  - congruence.
+  - intros k m. specialize (P k m). unfold vline in *.
+    replace (vdead (vnewper v) k) with (vdead v k) by reflexivity. cbn.
+    assert (E : vreading v = false) by (unfold vreading; rewrite Ey, N.ltb_irrefl; exact Hy).
+    rewrite E, andb_false_r in P. unfold proj at 4. cbn. destruct (_ && _); exact P.
 Qed.
 
-Lemma h_poll_invC s : InvC s -> InvC (fst (h_poll s)).
+Definition vjoin_x (v : view) : view :=
+  mkV (v_per v) (v_killed v) true (v_per v) [] [] None [] (v_ws v) (v_acc v) (v_car v)
+      (v_yalive v) (v_yper v) (v_nq v) (v_evs v) (v_peers v) (v_del v).
+
+Lemma prefix_nil_inv {A} (a b c : list A) : prefix (a ++ b ++ c) [] -> a = [] /\ b = [] /\ c = [].
 Proof.
-  intros H. unfold h_poll. destruct (b_events (sb s)) as [|e es] eqn:Ee.
-  - destruct (b_peers (sb s)) eqn:Ep.
-    + destruct (notifq (sb s)) as [|n q] eqn:Eq; [exact H|]. cbn [fst].
-      destruct H. unfold seen, pipe in *. rewrite ?Eq in *.
-      constructor; unfold seen, pipe; cbn; auto.
-      * intros Ha Hb m. specialize (c_eq0 Ha Hb m). unfold proj in c_eq0. rewrite c_eq0. f_equal. reassoc.
-      * intros k m. specialize (c_pre0 k m). unfold proj in c_pre0.
-        replace ((delivered (sg s) ++ [n]) ++ q) with (delivered (sg s) ++ n :: q) by reassoc.
-        exact c_pre0.
-    + (* unknown peer: the queued notifications are dropped; the receiver is not running *)
-      cbn [fst].
-      assert (Eb : b_alive (sb s) = false).
-      { destruct (b_alive (sb s)) eqn:Eb; [|reflexivity]. destruct (c_j s H Eb) as [[E _]|[pre E]].
-        - congruence.
-        - rewrite Ee in E. destruct pre; discriminate. }
-      pose proof (c_pre_seen s H) as Hs.
-      destruct H. constructor; unfold seen, pipe in *; cbn in *; rewrite ?Eb in *; auto;
-        try discriminate.
-      intros k m. rewrite !app_nil_r. specialize (Hs k m). rewrite proj_app in Hs.
-      eapply prefix_app_l. exact Hs.
-  - assert (Hj : b_alive (sb s) = true ->
-             (es = [] /\ e = HOpened (per s)) \/ (exists pre, es = pre ++ [HOpened (per s)])).
-    { intros Hb. destruct (c_j s H Hb) as [[_ E]|[pre E]]; [congruence|].
-      rewrite Ee in E. destruct pre as [|x pre]; cbn in E; inversion E; subst.
-      - left. split; reflexivity.
-      - right. now exists pre. }
-    destruct e as [k|k]; cbn [fst].
-    + destruct H. constructor; unfold seen, pipe in *; cbn in *; auto.
-      intros Hb. destruct (Hj Hb) as [[E _]|E]; [left; split; [reflexivity|exact E]|right; exact E].
-    + destruct H. constructor; unfold seen, pipe in *; cbn in *; auto.
-      intros Hb. destruct (Hj Hb) as [[_ E]|E]; [discriminate|right; exact E].
+  intros H. apply prefix_nil_r in H. apply app_eq_nil in H. destruct H as [H1 H2].
+  apply app_eq_nil in H2. tauto.
 Qed.
 
-Lemma reopen_invC s : InvC s -> InvC (fst (reopen s)).
+Lemma vjoin_x_inv v : InvV v -> v_xalive v = false -> v_xper v < v_per v -> InvV (vjoin_x v).
 Proof.
-  intros H. unfold reopen.
-  destruct (a_alive (sa s)) eqn:Ea; cbn [orb]; [exact H|].
-  destruct (b_alive (sb s)) eqn:Eb; [exact H|]. cbn [fst].
-  pose proof (c_pre_seen s H) as Hs. pose proof (c_t3 s H) as T3.
-  assert (Hnone : forall m, proj (per s + 1) m (accepted (sg s)) = []).
-  { intros m. apply (proj_above (per s)); [exact T3|lia]. }
-  constructor; unfold seen, pipe; cbn; try apply Forall_nil.
+  intros H Hx Hlt. pose proof (i_pre v H) as P. pose proof (i_unj v H Hlt) as Ec.
+  assert (Hnone : forall m, proj (v_per v) m (v_acc v) = []).
+  { intros m. apply (proj_above (v_xper v)); [exact (i_t3 v H)|exact Hlt]. }
+  pose proof (fun m => vmid_per v m H) as Hmid. pose proof (i_t3 v H) as T3. pose proof (i_t1w v H) as T1w.
+  destruct H. constructor; cbn.
+  - reflexivity.
+  - lia.
+  - discriminate.
+  - assumption.
+  - assumption.
+  - lia.
+  - assumption.
+  - constructor.
+  - constructor.
+  - eapply Forall_impl; [|exact T1w]. cbn. intros w [A B]. split; [exact A|lia].
+  - unfold vpipe. cbn. rewrite Ec. constructor.
   - eapply Forall_impl; [|exact T3]. cbn. intros n Hn. lia.
-  - intros _. right. now exists (b_events (sb s)).
-  - intros _ _ m. rewrite app_nil_r. specialize (Hs (per s + 1) m). unfold proj in *.
-    rewrite (Hnone m) in *. symmetry. apply prefix_nil_r. exact Hs.
-  - intros k m. rewrite app_nil_r. apply Hs.
+  - assumption.
+  - assumption.
+  - assumption.
+  - assumption.
+  - intros Hk _ Hr m. change (vreading v = true) in Hr. rewrite Hnone. symmetry.
+    specialize (P (v_per v) m). rewrite Hnone in P. unfold vline in P. rewrite (Hmid m Hr) in P.
+    apply prefix_nil_inv in P. destruct P as (P1 & P2 & _).
+    unfold vseen, vpipe. cbn. rewrite Ec. rewrite !proj_app, P1, P2. reflexivity.
+  - intros k m. exact (P k m).
 Qed.
 
-Lemma act_invC c s x : InvC s -> InvC (fst (act c s x)).
+Definition vjoin_y (v : view) : view :=
+  mkV (v_per v) (v_killed v) (v_xalive v) (v_xper v) (v_sq v) (v_aq v) (v_cur v) (v_sk v) (v_ws v) (v_acc v)
+      (v_car v) true (v_per v) (v_nq v) (v_evs v ++ [HOpened (v_per v)]) (v_peers v) (v_del v).
+
+Lemma vjoin_y_inv v : InvV v -> v_yalive v = false -> v_yper v < v_per v -> InvV (vjoin_y v).
 Proof.
-  intros H. destruct x; cbn [act].
-  - pose proof (send_sync_invC c s tag ln H). destruct (send_sync c s tag ln). exact H0.
-  - pose proof (send_async_invC s tag ln H). destruct (send_async s tag ln). exact H0.
-  - cbn [fst]. destruct H. constructor; unfold seen, pipe in *; cbn in *; auto.
-  - pose proof (h_poll_invC s H). destruct (h_poll s). exact H0.
-  - destruct (pa_events _ _ _). cbn [fst]. destruct H. constructor; unfold seen, pipe in *; cbn in *; auto.
-  - destruct (a_alive (sa s)); cbn [fst]; [apply close_a_invC|]; exact H.
-  - destruct (b_alive (sb s)); cbn [fst]; [apply close_b_invC|]; exact H.
-  - destruct (a_alive (sa s) || b_alive (sb s)); cbn [fst]; [|exact H].
-    pose proof (c_pre_seen s H) as Hs.
-    pose proof (c_t2 s H) as T2. unfold pipe in T2. apply Forall_app_iff in T2. destruct T2 as [_ T2].
-    destruct (a_alive (sa s)) eqn:Ea.
-    + destruct H. constructor; unfold seen, pipe in *; cbn in *; try apply Forall_nil; auto;
-        try discriminate.
-      intros k m. specialize (Hs k m). destruct (b_alive (sb s)); rewrite app_nil_r; exact Hs.
-    + destruct H. constructor; unfold seen, pipe in *; cbn in *; auto.
-      * rewrite Ea. discriminate.
-      * intros k m. specialize (Hs k m). destruct (b_alive (sb s)); rewrite app_nil_r; exact Hs.
-  - pose proof (reopen_invC s H). destruct (reopen s). exact H0.
+  intros H Hy Hlt. pose proof (i_pre v H) as P. pose proof (i_ev v H) as EV. pose proof (i_pe v H) as PE.
+  pose proof (i_t4 v H) as T4.
+  assert (Hr : vreading v = true) by (unfold vreading; destruct (v_yper v <? v_per v) eqn:E; [reflexivity|lia]).
+  destruct H. constructor; cbn.
+  - assumption.
+  - assumption.
+  - assumption.
+  - reflexivity.
+  - lia.
+  - assumption.
+  - assumption.
+  - assumption.
+  - assumption.
+  - assumption.
+  - assumption.
+  - assumption.
+  - eapply Forall_impl; [|exact T4]. cbn. intros n Hn. lia.
+  - intros _. right. now exists (v_evs v).
+  - intros j. rewrite opened_in_last. intros Hj. apply orb_true_iff in Hj. destruct Hj as [Hj|Hj].
+    + specialize (EV j Hj). lia.
+    + lia.
+  - intros j Hj. specialize (PE j Hj). lia.
+  - intros Hk Hx _ m. exact (i_eq0 Hk Hx Hr m).
+  - intros k m. specialize (P k m). unfold vline in *. cbn.
+    replace (vreading (vjoin_y v)) with true by (unfold vreading; cbn; now rewrite N.ltb_irrefl).
+    rewrite Hr in P.
+    assert (Emid : (if vdead (vjoin_y v) k then [] else proj k m (v_nq v)) =
+                   (if vdead v k then [] else proj k m (v_nq v))).
+    { unfold vdead. cbn. rewrite opened_in_last. destruct (v_per v =? k) eqn:Ek.
+      - assert (k = v_per v) by lia. subst k. rewrite orb_true_r, andb_false_r.
+        assert (E0 : proj (v_per v) m (v_nq v) = []).
+        { apply (proj_above (v_yper v)); [|exact Hlt]. unfold vseen in T4. apply Forall_app_iff in T4. tauto. }
+        cbn. rewrite E0. destruct (negb _ && negb _); reflexivity.
+      - now rewrite orb_false_r. }
+    rewrite Emid. exact P.
 Qed.
 
-Lemma step_invC c s x : InvC s -> InvC (fst (step c s x)).
+Definition vkill (v : view) : view :=
+  mkV (v_per v) true (v_xalive v) (v_xper v) (v_sq v) (v_aq v) (v_cur v) (v_sk v) (v_ws v) (v_acc v) []
+      (v_yalive v) (v_yper v) (v_nq v) (v_evs v) (v_peers v) (v_del v).
+
+Lemma vkill_inv v : InvV v -> InvV (vkill v).
 Proof.
-  intros H. unfold step. pose proof (act_invC c s x H) as H1. destruct (act c s x) as [s1 r].
-  cbn [fst] in *. apply settle_invC. exact H1.
+  intros H. pose proof (i_pre v H) as P.
+  pose proof (i_t2 v H) as T2. unfold vpipe in T2. apply Forall_app_iff in T2. destruct T2 as [_ T2].
+  destruct H. constructor; cbn.
+  - assumption.
+  - assumption.
+  - assumption.
+  - assumption.
+  - assumption.
+  - reflexivity.
+  - reflexivity.
+  - assumption.
+  - assumption.
+  - assumption.
+  - unfold vpipe. cbn. exact T2.
+  - assumption.
+  - assumption.
+  - assumption.
+  - assumption.
+  - assumption.
+  - discriminate.
+  - intros k m. specialize (P k m). unfold vline in *.
+    replace (vdead (vkill v) k) with (vdead v k) by reflexivity. cbn.
+    unfold proj at 4. cbn. destruct (_ && _); [|exact P].
+    eapply prefix_drop_tail. exact P.
 Qed.
 
-Lemma run_invC c : forall xs s, InvC s -> InvC (fst (run c s xs)).
+(* ================================================================== from views to states *)
+Lemma assign_forall (Q : notif -> Prop) cn0 : forall k ws,
+  Forall (fun w => Q (w_n w)) ws -> Forall (fun w => Q (w_n w)) (assign cn0 k ws).
 Proof.
-  induction xs as [|x xs IH]; intros s H; cbn [run]; [exact H|].
-  pose proof (step_invC c s x H) as H1. destruct (step c s x) as [s1 r]. cbn [fst] in H1.
-  specialize (IH s1 H1). destruct (run c s1 xs) as [s2 rs]. exact IH.
+  induction k as [|k IH]; intros ws H; [destruct ws; exact H|].
+  induction H as [|w t Hw Ht IHt]; cbn; [constructor|].
+  destruct (w_asg w || negb (wlive cn0 w)).
+  - constructor; [exact Hw|exact IHt].
+  - constructor; [exact Hw|apply IH; exact Ht].
 Qed.
 
-Lemma final_invC c hs xs : InvC (final c hs xs).
-Proof. unfold final. apply run_invC. apply init_invC. Qed.
-
-(* ---- the statements about ordering ---- *)
-Lemma fifo_prefix c hs xs k m :
-  prefix (proj k m (delivered (sg (final c hs xs)))) (proj k m (accepted (sg (final c hs xs)))).
+Lemma remove_w_forall (P : waiter -> Prop) id : forall ws, Forall P ws -> Forall P (remove_w id ws).
 Proof.
-  pose proof (c_pre_seen _ (final_invC c hs xs) k m) as P. unfold seen in P.
-  rewrite proj_app in P. eapply prefix_app_l. exact P.
+  induction 1 as [|w t Hw Ht IH]; cbn; [constructor|]. destruct (w_id w =? id); [exact Ht|constructor; assumption].
 Qed.
 
-Lemma no_loss_while_open c hs xs m :
-  let s := final c hs xs in
-  a_alive (sa s) = true -> b_alive (sb s) = true ->
-  proj (per s) m (accepted (sg s)) =
-  proj (per s) m (delivered (sg s) ++ notifq (sb s) ++ carrier (sl s) ++ sink (sa s) ++
-                  opt_list (parked (sa s)) ++ syncq (sa s) ++ asyncq (sa s)).
+Definition wsP (p : N) (w : waiter) : Prop := n_sync (w_n w) = false /\ n_per (w_n w) <= p.
+
+Lemma close_dview_x z n s : dview (close z n s) z = vclose_x (dview s z).
+Proof. destruct z; reflexivity. Qed.
+
+Lemma close_dview_y z n s : dview (close z n s) (negb z) = vclose_y (dview s (negb z)).
+Proof. destruct z; reflexivity. Qed.
+
+Lemma close_invD z n s : (forall x, InvD s x) -> e_alive (cn s z) = true -> forall x, InvD (close z n s) x.
 Proof.
-  intros s Ha Hb. pose proof (c_eq _ (final_invC c hs xs) Ha Hb m) as E. fold s in E.
-  rewrite E. unfold seen, pipe. f_equal. reassoc.
+  intros H Ha x. unfold InvD. destruct (Bool.eqb x z) eqn:E.
+  - apply eqb_prop in E. subst x. rewrite close_dview_x. apply vclose_x_inv. apply H.
+  - assert (x = negb z) by (destruct x, z; cbn in E; try discriminate; reflexivity). subst x.
+    rewrite close_dview_y. apply vclose_y_inv; [apply H|]. destruct z; exact Ha.
 Qed.
 
-(* what may still reach the user continues what was delivered: pending + delivered is a prefix too *)
-Lemma pending_prefix c hs xs k m :
-  let s := final c hs xs in
-  prefix (proj k m (delivered (sg s) ++ notifq (sb s))) (proj k m (accepted (sg s))).
-Proof. intros s. exact (c_pre_seen _ (final_invC c hs xs) k m). Qed.
-
-(* ------------------------------------------------------------------ bounds, sizes, period order *)
-Fixpoint mono_from (last : N) (l : list notif) : Prop :=
-  match l with [] => True | n :: t => last <= n_per n /\ mono_from (n_per n) t end.
-
-Lemma mono_snoc p n : n_per n = p -> forall l a, mono_from a l -> Forall (fun x => n_per x <= p) l -> a <= p ->
-  mono_from a (l ++ [n]).
+Lemma out_phase_dview_y c z b s : e_alive (cn s z) = true ->
+  dview (fst (out_phase c z b s)) (negb z) = dview s (negb z).
 Proof.
-  intros Hn. induction l as [|x l IH]; intros a Hm Hf Ha; cbn in *.
-  - split; [lia|exact I].
-  - destruct Hm as [H1 H2]. inversion Hf; subst. split; [exact H1|]. apply IH; auto.
+  intros Ha. unfold out_phase, cn in *. destruct (a_loop _ _ _ _) as [cl L]. destruct cl.
+  - destruct z; cbn in *; unfold dview, cn, hn, gl; cbn; rewrite Ha; reflexivity.
+  - destruct (if wgate (glo s z) then _ else _) as [sk ca].
+    destruct z; cbn in *; unfold dview, cn, hn, gl; cbn; rewrite Ha; reflexivity.
 Qed.
 
-Lemma mono_app_l : forall l1 l2 a, mono_from a (l1 ++ l2) -> mono_from a l1.
+Lemma out_phase_invD_x c z b s : InvD s z -> e_alive (cn s z) = true -> killed s = false ->
+  match out_phase c z b s with
+  | (s1, true) => InvD (close z true s1) z
+  | (s1, false) => InvD s1 z
+  end.
 Proof.
-  induction l1 as [|x l1 IH]; intros l2 a H; cbn in *; [exact I|].
-  destruct H as [H1 H2]. split; [exact H1|]. eapply IH. exact H2.
-Qed.
-
-Record InvB (c : cfg) (s : st) : Prop := mkInvB {
-  (* the user channel never holds more than its capacity, counting the reserved slot *)
-  b_res : len (notifq (sb s)) + (if reserved (sb s) then 1 else 0) <= cap_n c;
-  b_out : Forall (fun n => n_len n <= max_out c) (carrier (sl s) ++ sink (sa s));
-  b_seen_out : Forall (fun n => n_len n <= max_out c) (seen s);
-  b_seen_in : Forall (fun n => n_len n <= max_in c) (seen s);
-  b_mono : mono_from 0 (seen s);
-  b_le : Forall (fun n => n_per n <= per s) (seen s)
-}.
-
-Lemma init_invB c hs : 1 <= cap_n c -> InvB c (init hs).
-Proof. intros Hc. constructor; unfold seen; cbn; try apply Forall_nil; auto. unfold len. cbn. lia. Qed.
-
-Lemma close_a_invB c notify s : InvB c s -> InvB c (close_a notify s).
-Proof.
-  intros H. destruct H. constructor; unfold seen in *; cbn in *; auto.
-  rewrite app_nil_r. apply Forall_app_iff in b_out0. tauto.
-Qed.
-
-Lemma close_b_invB c notify s : InvB c s -> InvB c (close_b notify s).
-Proof. intros H. destruct H. constructor; unfold seen in *; cbn in *; auto. lia. Qed.
-
-Lemma b_run_invB c : forall fuel s, InvC s -> InvB c s -> InvB c (b_run fuel c s).
-Proof.
-  induction fuel as [|fuel IH]; intros s HC H; cbn [b_run]; [exact H|].
-  pose proof (b_run_invC c 1 s HC) as P. cbn [b_run] in P.
-  destruct (b_alive (sb s)) eqn:Eb; cbn [negb] in *; [|exact H].
-  destruct (reserved (sb s) || (len (notifq (sb s)) <? cap_n c)) eqn:Ecan; cbn [negb] in *; [|exact H].
-  destruct (killed (sl s)) eqn:Ek; [apply close_b_invB; exact H|].
-  set (s1 := mkSt (per s) (sa s) (sl s)
-                  (mkB true true (notifq (sb s)) (b_events (sb s)) (b_peers (sb s)))
-                  (sh s) (sg s) (later_hints s)) in *.
-  assert (H1 : InvB c s1).
-  { destruct H. constructor; unfold seen in *; cbn in *; auto.
-    destruct (reserved (sb s)); cbn in Ecan; lia. }
-  destruct (rgate (sl s)) eqn:Er; cbn [negb] in *; [|exact H1].
-  destruct (carrier (sl s)) as [|n rest] eqn:Ec.
-  - destruct (a_alive (sa s)); [exact H1|]. apply close_b_invB. exact H1.
-  - destruct (max_in c <? n_len n) eqn:Ein; [apply close_b_invB; exact H1|].
-    pose proof (t2_carrier s HC) as T2. rewrite Ec in T2. inversion T2 as [|? ? Hn T2']; subst.
-    apply IH; [exact P|].
-    destruct H. unfold seen in *; cbn in *. rewrite Ec in *.
-      assert (Ho : n_len n <= max_out c).
-      { apply Forall_app_iff in b_out0. destruct b_out0 as [B _]. inversion B; subst. assumption. }
-      constructor; unfold seen; cbn.
-      * rewrite len_app. cbn. destruct (reserved (sb s)); cbn in Ecan; unfold len in *; cbn; lia.
-      * apply Forall_app_iff in b_out0. destruct b_out0 as [B B']. inversion B; subst.
-        apply Forall_app_iff. split; assumption.
-      * rewrite app_assoc. apply Forall_app_iff. split; [exact b_seen_out0|]. repeat constructor. exact Ho.
-      * rewrite app_assoc. apply Forall_app_iff. split; [exact b_seen_in0|]. repeat constructor. lia.
-      * rewrite app_assoc. apply (mono_snoc (per s)); auto. lia.
-      * rewrite app_assoc. apply Forall_app_iff. split; [exact b_le0|]. repeat constructor. lia.
-Qed.
-
-Lemma a_round_invB c s : InvB c s -> InvB c (fst (a_round c s)).
-Proof.
-  intros H. unfold a_round.
-  destruct (a_alive (sa s)) eqn:Ea; cbn [negb]; [|exact H].
-  set (L0 := mkLst (parked (sa s)) (syncq (sa s)) (asyncq (sa s)) (sink (sa s)) (carrier (sl s))
-                   (hints (sa s)) (bad (sg s))).
-  set (fuel := S (opt_len (parked (sa s)) + length (syncq (sa s)) + length (asyncq (sa s)))).
-  pose proof (a_loop_out fuel c (wgate (sl s)) L0 (b_out c s H)) as Hout. cbn zeta in Hout.
-  destruct (a_loop fuel c (wgate (sl s)) L0) as [cl L]. cbn [snd] in Hout.
+  intros H Ha Hk. unfold InvD in *.
+  set (fuel := (opt_len (e_cur (ec (gep s z))) +
+                N.to_nat (N.min b (len (e_sq (ec (gep s z))) + len (e_aq (ec (gep s z))) + 1)))%nat).
+  set (mx := c_max (ecf c z)). set (wg := wgate (glo s z)).
+  pose proof (fun ws' => vout_inv (dview s z) fuel mx wg (e_hints (ec (gep s z))) (bad s) ws' H Hk Ha) as V.
+  unfold out_phase. fold fuel mx wg.
+  change (mkLst (e_cur (ec (gep s z))) (e_sq (ec (gep s z))) (e_aq (ec (gep s z))) (e_sk (ec (gep s z)))
+                (carrier (glo s z)) (e_hints (ec (gep s z))) (bad s))
+    with (vL (dview s z) (e_hints (ec (gep s z))) (bad s)).
+  destruct (a_loop fuel mx wg (vL (dview s z) (e_hints (ec (gep s z))) (bad s))) as [cl L].
   destruct cl.
-  - cbn [fst]. destruct H. constructor; unfold seen in *; cbn in *; auto.
-    rewrite app_nil_r. apply Forall_app_iff in Hout. tauto.
-  - destruct (if wgate (sl s) then ([], l_ca L ++ l_sk L) else (l_sk L, l_ca L)) as [sk ca] eqn:Efl.
-    assert (Hcs : Forall (fun n => n_len n <= max_out c) (ca ++ sk)).
-    { destruct (wgate (sl s)); inversion Efl; subst; [rewrite app_nil_r|]; exact Hout. }
-    destruct (b_alive (sb s)); cbn [negb fst].
-    + destruct H. constructor; unfold seen in *; cbn in *; auto.
-    + destruct H. constructor; unfold seen in *; cbn in *; auto.
-      rewrite app_nil_r. apply Forall_app_iff in Hcs. tauto.
+  - specialize (V [] (Forall_nil _)). rewrite close_dview_x.
+    replace (vclose_x _) with (vout_closed (dview s z) L); [exact V|]. destruct z; reflexivity.
+  - destruct (if wg then ([], l_ca L ++ l_sk L) else (l_sk L, l_ca L)) as [sk ca] eqn:Ef.
+    match goal with |- InvV (dview (mkSt _ _ _ _ _ _ _ _ _) z) => idtac end.
+    set (ws' := rebalance (ecf c z) (mkC true (e_per (ec (gep s z))) (e_shut (ec (gep s z))) (l_sq L) (l_aq L)
+                                     (l_cur L) sk (l_h L) (e_res (ec (gep s z))) (e_rwait (ec (gep s z))))
+                          (e_ws (eh (gep s z)))).
+    assert (Hws : Forall (wsP (e_per (ec (gep s z)))) ws').
+    { unfold ws', rebalance.
+      apply (assign_forall (fun n => n_sync n = false /\ n_per n <= e_per (ec (gep s z)))).
+      exact (i_t1w _ H). }
+    specialize (V ws' Hws).
+    replace (dview _ z) with (vout_open (dview s z) L wg ws'); [exact V|].
+    unfold wg in *. destruct (wgate (glo s z)); inversion Ef; subst; destruct z; reflexivity.
 Qed.
 
-Lemma rounds_inv c : forall fuel s, InvC s -> InvB c s ->
-  InvC (rounds fuel c s) /\ InvB c (rounds fuel c s).
+Lemma set_res_dview z r w s x : dview (set_res z r w s) x = dview s x.
+Proof. destruct z, x; reflexivity. Qed.
+
+Lemma read_dview_y z n rest wg rg s :
+  dview (push_nq z n (slo s (negb z) (mkL wg rg rest))) (negb z) = vread (dview s (negb z)) n rest.
+Proof. destruct z; reflexivity. Qed.
+
+Lemma read_dview_x z n rest wg rg s :
+  dview (push_nq z n (slo s (negb z) (mkL wg rg rest))) z = dview s z.
+Proof. destruct z; reflexivity. Qed.
+
+Lemma conn_loop_invD c z : forall fuel b s,
+  InvP s /\ (forall x, InvD s x) -> e_alive (cn s z) = true ->
+  InvP (conn_loop fuel c z b s) /\ forall x, InvD (conn_loop fuel c z b s) x.
 Proof.
-  induction fuel as [|fuel IH]; intros s HC H; cbn [rounds]; [split; assumption|].
-  pose proof (a_round_invC c s HC) as C1. pose proof (a_round_invB c s H) as B1.
-  destruct (a_round c s) as [s1 again]. cbn [fst] in *.
-  pose proof (b_run_invC c (S (length (carrier (sl s1)))) s1 C1) as C2.
-  pose proof (b_run_invB c (S (length (carrier (sl s1)))) s1 C1 B1) as B2.
-  destruct again; [apply IH; assumption|].
-  destruct (a_alive _ && negb _); [split; [apply a_round_invC|apply a_round_invB]; assumption|].
-  split; assumption.
+  apply (conn_loop_gen (fun s => InvP s /\ forall x, InvD s x)).
+  - intros s nfy [HP H] Ha. split; [apply close_invP; exact HP|apply close_invD; assumption].
+  - intros s b [HP H] Ha Hk.
+    pose proof (out_phase_invD_x c z b s (H z) Ha Hk) as Hx.
+    pose proof (out_phase_dview_y c z b s Ha) as Hy.
+    pose proof (out_phase_frame c z b s Ha) as F. cbn zeta in F.
+    pose proof (out_phase_invP c z b s HP Ha Hk) as HP1.
+    destruct (out_phase c z b s) as [s1 refused]. cbn [fst] in *.
+    destruct F as (Fa & _).
+    assert (H1y : InvD s1 (negb z)) by (unfold InvD; rewrite Hy; apply H).
+    destruct refused.
+    + split; [apply close_invP; exact HP1|]. intros x. unfold InvD. destruct (Bool.eqb x z) eqn:E.
+      * apply eqb_prop in E. subst x. exact Hx.
+      * assert (x = negb z) by (destruct x, z; cbn in E; try discriminate; reflexivity). subst x.
+        rewrite close_dview_y. apply vclose_y_inv; [exact H1y|]. destruct z; exact Fa.
+    + split; [exact HP1|]. intros x. destruct (Bool.eqb x z) eqn:E.
+      * apply eqb_prop in E. subst x. exact Hx.
+      * assert (x = negb z) by (destruct x, z; cbn in E; try discriminate; reflexivity). subst x. exact H1y.
+  - intros s [HP H] Ha _. split; [apply set_res_invP; assumption|]. intros x. unfold InvD. rewrite set_res_dview. apply H.
+  - intros s [HP H] Ha _. split; [apply set_res_invP; assumption|]. intros x. unfold InvD. rewrite set_res_dview. apply H.
+  - intros s n rest [HP H] Ha _ _ _ Ec _. split; [apply read_invP; assumption|].
+    intros x. unfold InvD. destruct (Bool.eqb x z) eqn:E.
+    + apply eqb_prop in E. subst x. rewrite read_dview_x. apply H.
+    + assert (x = negb z) by (destruct x, z; cbn in E; try discriminate; reflexivity). subst x.
+      rewrite read_dview_y. apply vread_inv; [apply H| |].
+      * destruct z; exact Ha.
+      * destruct z; exact Ec.
 Qed.
 
-Lemma settle_inv c s : InvC s -> InvB c s -> InvC (settle c s) /\ InvB c (settle c s).
+Lemma conn_poll_invD c z b s : InvP s -> (forall x, InvD s x) -> forall x, InvD (conn_poll c z b s) x.
 Proof.
-  intros HC H. unfold settle. apply rounds_inv; [apply b_run_invC|apply b_run_invB]; assumption.
+  intros HP H. unfold conn_poll. fold (cn s z). destruct (e_alive (cn s z)) eqn:Ea; [|exact H].
+  apply conn_loop_invD; [split; assumption|exact Ea].
 Qed.
 
-Lemma act_invB c s x : InvC s -> InvB c s -> InvB c (fst (act c s x)).
+Ltac other x z E := assert (x = negb z) by (destruct x, z; cbn in E; try discriminate; reflexivity); subst x.
+
+Lemma hand_over_dview z b s x : dview (hand_over z b s) x = dview s x.
+Proof. unfold hand_over. destruct (_ && _ && _); [apply set_res_dview|reflexivity]. Qed.
+
+Lemma h_poll_invD c z b s : (forall x, InvD s x) -> forall x, InvD (fst (h_poll c z b s)) x.
 Proof.
-  intros HC H. destruct x; cbn [act].
-  - unfold send_sync. destruct (a_sink (sh s)); [|exact H].
-    destruct (live s n); [|exact H].
-    destruct (len (syncq (sa s)) <? cap_s c); cbn [fst].
-    + destruct H. constructor; unfold seen in *; cbn in *; auto.
-    + destruct (a_clogged (sh s)); [exact H|]. cbn [fst].
-      destruct H. constructor; unfold seen in *; cbn in *; auto.
-  - unfold send_async. destruct (a_sink (sh s)); [|exact H].
-    destruct (live s n); cbn [fst]; destruct H; constructor; unfold seen in *; cbn in *; auto.
-  - cbn [fst]. destruct H. constructor; unfold seen in *; cbn in *; auto.
-  - unfold h_poll. destruct (b_events (sb s)) as [|[k|k] es].
-    + destruct (b_peers (sb s)).
-      * destruct (notifq (sb s)) as [|n q] eqn:Eq; [exact H|]. cbn [fst].
-        destruct H. unfold seen in *. rewrite Eq in *.
-        constructor; unfold seen; cbn in *.
-        -- rewrite len_cons in b_res0. lia.
-        -- exact b_out0.
-        -- replace ((delivered (sg s) ++ [n]) ++ q) with (delivered (sg s) ++ n :: q) by reassoc. assumption.
-        -- replace ((delivered (sg s) ++ [n]) ++ q) with (delivered (sg s) ++ n :: q) by reassoc. assumption.
-        -- replace ((delivered (sg s) ++ [n]) ++ q) with (delivered (sg s) ++ n :: q) by reassoc. assumption.
-        -- replace ((delivered (sg s) ++ [n]) ++ q) with (delivered (sg s) ++ n :: q) by reassoc. assumption.
-      * cbn [fst]. destruct H. unfold seen in *. constructor; unfold seen; cbn in *.
-        -- unfold len in *. cbn. lia.
-        -- exact b_out0.
-        -- rewrite app_nil_r. apply Forall_app_iff in b_seen_out0. tauto.
-        -- rewrite app_nil_r. apply Forall_app_iff in b_seen_in0. tauto.
-        -- rewrite app_nil_r. eapply mono_app_l. exact b_mono0.
-        -- rewrite app_nil_r. apply Forall_app_iff in b_le0. tauto.
-    + cbn [fst]. destruct H. constructor; unfold seen in *; cbn in *; auto.
-    + cbn [fst]. destruct H. constructor; unfold seen in *; cbn in *; auto.
-  - destruct (pa_events _ _ _). cbn [fst]. destruct H. constructor; unfold seen in *; cbn in *; auto.
-  - destruct (a_alive (sa s)); cbn [fst]; [apply close_a_invB|]; exact H.
-  - destruct (b_alive (sb s)); cbn [fst]; [apply close_b_invB|]; exact H.
-  - destruct (a_alive (sa s) || b_alive (sb s)); cbn [fst]; [|exact H].
-    destruct (a_alive (sa s)).
-    + destruct H. constructor; unfold seen in *; cbn in *; auto.
-    + destruct H. constructor; unfold seen in *; cbn in *; auto.
-      apply Forall_app_iff in b_out0. tauto.
-  - unfold reopen. destruct (a_alive (sa s) || b_alive (sb s)) eqn:E; cbn [fst]; [exact H|].
-    apply orb_false_iff in E. destruct E as [_ Eb].
-    destruct H. constructor; unfold seen in *; cbn in *; auto.
-    + (* the reserved slot was released when the previous Connection ended *)
-      destruct (reserved (sb s)); lia.
-    + eapply Forall_impl; [|exact b_le0]. cbn. intros n Hn. lia.
+  intros H x. unfold h_poll, h_poll_gen. destruct (b =? 0); [apply H|].
+  destruct (e_evs (eh (gep s z))) as [|e es] eqn:Ee.
+  - destruct (h_scan true (e_peers (eh (gep s z))) _ (e_nq (eh (gep s z)))) as [r q] eqn:Es.
+    unfold InvD. destruct (Bool.eqb x z) eqn:E.
+    + apply eqb_prop in E. subst x.
+      destruct r; cbn [fst]; rewrite hand_over_dview;
+        (replace (dview _ z) with (dview s z) by (destruct z; reflexivity)); apply H.
+    + other x z E. specialize (H (negb z)). unfold InvD in H.
+      assert (V : InvV (vscan (dview s (negb z)) r q)).
+      { eapply vscan_inv; [exact H| |].
+        - destruct z; exact Ee.
+        - destruct z; exact Es. }
+      destruct r as [n|]; cbn [fst]; rewrite hand_over_dview.
+      * replace (dview _ (negb z)) with (vscan (dview s (negb z)) (Some n) q); [exact V|].
+        destruct z; cbn; unfold vscan, dview, cn, hn, gl; cbn in *; rewrite ?Ee; reflexivity.
+      * replace (dview _ (negb z)) with (vscan (dview s (negb z)) None q); [exact V|].
+        destruct z; cbn; unfold vscan, dview, cn, hn, gl; cbn in *; rewrite ?Ee, ?app_nil_r; reflexivity.
+  - unfold InvD. destruct (Bool.eqb x z) eqn:E.
+    + apply eqb_prop in E. subst x.
+      destruct e; cbn [fst]; (replace (dview _ z) with (dview s z) by (destruct z; reflexivity)); apply H.
+    + other x z E. specialize (H (negb z)). unfold InvD in H.
+      pose proof (vevent_inv (dview s (negb z)) e es H) as V.
+      assert (Ee' : v_evs (dview s (negb z)) = e :: es) by (destruct z; exact Ee).
+      specialize (V Ee').
+      destruct e as [k|k]; cbn [fst].
+      * replace (dview _ (negb z)) with (vevent (dview s (negb z)) (Some k) es); [exact V|].
+        destruct z; reflexivity.
+      * replace (dview _ (negb z)) with (vevent (dview s (negb z)) None es); [exact V|].
+        destruct z; reflexivity.
 Qed.
 
-Lemma step_inv c s x : InvC s -> InvB c s ->
-  InvC (fst (step c s x)) /\ InvB c (fst (step c s x)).
+Lemma send_sync_invD c z s t l : (forall x, InvD s x) -> forall x, InvD (fst (send_sync c z s t l)) x.
 Proof.
-  intros HC H. unfold step. pose proof (act_invC c s x HC) as C1.
-  pose proof (act_invB c s x HC H) as B1. destruct (act c s x) as [s1 r].
-  cbn [fst] in *. apply settle_inv; assumption.
+  intros H x. unfold send_sync. destruct (e_peers (eh (gep s z))) as [k|] eqn:Epe; [|apply H].
+  destruct (live s z k) eqn:El; [|apply H]. apply live_alive in El. destruct El as [Ea Ek].
+  unfold InvD. destruct (len (e_sq (ec (gep s z))) <? c_s (ecf c z)); cbn [fst].
+  - destruct (Bool.eqb x z) eqn:E.
+    + apply eqb_prop in E. subst x.
+      replace (dview _ z) with (vaccept (dview s z) (mkN z k true t l) (e_ws (hn s z))) by (destruct z; reflexivity).
+      apply vaccept_inv; [apply H|exact Ea|cbn; destruct z; exact Ek|exact (i_t1w _ (H z))].
+    + other x z E. replace (dview _ (negb z)) with (dview s (negb z)); [apply H|].
+      destruct z; cbn; unfold dview, cn, hn, gl; cbn in *; rewrite ?Epe; reflexivity.
+  - destruct (e_clog (eh (gep s z))); [apply H|].
+    destruct (e_cmds (eh (gep s z)) <? c_c (ecf c z)); cbn [fst];
+      (replace (dview _ x) with (dview s x); [apply H|]);
+      destruct z, x; cbn; unfold dview, cn, hn, gl; cbn in *; rewrite ?Epe; reflexivity.
 Qed.
 
-Lemma run_inv c : forall xs s, InvC s -> InvB c s ->
-  InvC (fst (run c s xs)) /\ InvB c (fst (run c s xs)).
+Lemma set_async_dview_y z aq ws acc ok err s :
+  dview (set_async z aq ws acc ok err s) (negb z) = dview s (negb z).
+Proof. destruct z; reflexivity. Qed.
+
+Lemma async_start_invD c z s i t l : (forall x, InvD s x) -> forall x, InvD (fst (async_start c z s i t l)) x.
 Proof.
-  induction xs as [|x xs IH]; intros s HC H; cbn [run]; [split; assumption|].
-  destruct (step_inv c s x HC H) as [C1 B1]. destruct (step c s x) as [s1 r]. cbn [fst] in *.
-  specialize (IH s1 C1 B1). destruct (run c s1 xs) as [s2 rs]. exact IH.
+  intros H x. unfold async_start. destruct (find_w i _); [apply H|].
+  destruct (e_peers (eh (gep s z))) as [k|] eqn:Epe; [|apply H].
+  unfold InvD. destruct (Bool.eqb x z) eqn:E.
+  - apply eqb_prop in E. subst x. destruct (live s z k) eqn:El.
+    + apply live_alive in El. destruct El as [Ea Ek].
+      destruct (0 <? afree _ _ _); cbn [fst].
+      * replace (dview _ z) with (vaccept (dview s z) (mkN z k false t l) (e_ws (hn s z)))
+          by (destruct z; reflexivity).
+        apply vaccept_inv; [apply H|exact Ea|cbn; destruct z; exact Ek|exact (i_t1w _ (H z))].
+      * replace (dview _ z) with (vsetws (dview s z) (e_ws (hn s z) ++ [mkW i (mkN z k false t l) false]))
+          by (destruct z; reflexivity).
+        apply vsetws_inv; [apply H|]. apply Forall_app_iff. split; [exact (i_t1w _ (H z))|].
+        repeat constructor. cbn. destruct z; cbn in *; lia.
+    + cbn [fst]. replace (dview _ z) with (dview s z) by (destruct z; reflexivity). apply H.
+  - other x z E. destruct (live s z k); [destruct (0 <? afree _ _ _)|]; cbn [fst];
+      rewrite set_async_dview_y; apply H.
 Qed.
 
-Lemma final_invB c hs xs : 1 <= cap_n c -> InvB c (final c hs xs).
-Proof. intros Hc. unfold final. apply run_inv; [apply init_invC|apply init_invB; exact Hc]. Qed.
-
-(* ---- global consequences ---- *)
-Lemma oversize_never_delivered c hs xs : 1 <= cap_n c ->
-  Forall (fun n => n_len n <= max_out c /\ n_len n <= max_in c) (delivered (sg (final c hs xs))).
+Lemma find_w_in i : forall ws w, find_w i ws = Some w -> In w ws.
 Proof.
-  intros Hc. pose proof (final_invB c hs xs Hc) as H.
-  pose proof (b_seen_out c _ H) as A. pose proof (b_seen_in c _ H) as B. unfold seen in *.
-  apply Forall_app_iff in A. apply Forall_app_iff in B. destruct A as [A _], B as [B _].
-  rewrite Forall_forall in *. intros n Hn. split; auto.
+  induction ws as [|a t IH]; intros w H; cbn in H; [discriminate|].
+  destruct (w_id a =? i); [inversion H; subst; left; reflexivity|right; apply IH; exact H].
 Qed.
 
-Lemma user_channel_bound c hs xs : 1 <= cap_n c ->
-  let s := final c hs xs in
-  len (notifq (sb s)) + (if reserved (sb s) then 1 else 0) <= cap_n c.
-Proof. intros Hc s. exact (b_res c _ (final_invB c hs xs Hc)). Qed.
-
-Lemma delivered_periods_monotone c hs xs : 1 <= cap_n c ->
-  mono_from 0 (delivered (sg (final c hs xs))).
+Lemma async_poll_invD z s i : (forall x, InvD s x) -> forall x, InvD (fst (async_poll z s i)) x.
 Proof.
-  intros Hc. pose proof (b_mono c _ (final_invB c hs xs Hc)) as H. unfold seen in H.
-  eapply mono_app_l. exact H.
+  intros H x. unfold async_poll. destruct (find_w i _) as [w|] eqn:Ef; [|apply H].
+  unfold InvD. destruct (Bool.eqb x z) eqn:E.
+  - apply eqb_prop in E. subst x.
+    pose proof (i_t1w _ (H z)) as T. pose proof (remove_w_forall _ i _ T) as TR.
+    destruct (wlive (ec (gep s z)) w) eqn:El; cbn [negb].
+    + apply wlive_alive in El. destruct El as [Ea Ek]. destruct (w_asg w); cbn [fst]; [|apply H].
+      replace (dview _ z) with (vaccept (dview s z) (w_n w) (remove_w i (e_ws (hn s z)))).
+      * rewrite Forall_forall in T. destruct (T w (find_w_in _ _ _ Ef)) as [Tm _].
+        apply vaccept_inv; [apply H|destruct z; exact Ea|destruct z; exact Ek|exact TR].
+      * rewrite Forall_forall in T. destruct (T w (find_w_in _ _ _ Ef)) as [Tm _].
+        unfold vaccept. rewrite Tm. destruct z; reflexivity.
+    + cbn [fst]. replace (dview _ z) with (vsetws (dview s z) (remove_w i (e_ws (hn s z))))
+        by (destruct z; reflexivity).
+      apply vsetws_inv; [apply H|exact TR].
+  - other x z E. destruct (wlive _ w); cbn [negb]; [destruct (w_asg w)|]; cbn [fst];
+      rewrite ?set_async_dview_y; apply H.
 Qed.
 
-(* a frame leaves the substream only into a reserved slot: one iteration of Connection B *)
-Lemma read_needs_reservation c s :
-  b_alive (sb s) = true -> reserved (sb s) = false -> cap_n c <= len (notifq (sb s)) ->
-  forall fuel, b_run fuel c s = s.
+Lemma async_drop_invD c z s i : (forall x, InvD s x) -> forall x, InvD (fst (async_drop c z s i)) x.
 Proof.
-  intros Hb Hr Hfull fuel. destruct fuel; cbn [b_run]; [reflexivity|].
-  rewrite Hb, Hr. cbn [negb orb]. destruct (len (notifq (sb s)) <? cap_n c) eqn:E; [lia|reflexivity].
+  intros H x. unfold async_drop. destruct (find_w i _) as [w|]; [|apply H]. cbn [fst].
+  unfold InvD. destruct (Bool.eqb x z) eqn:E.
+  - apply eqb_prop in E. subst x.
+    replace (dview _ z) with
+      (vsetws (dview s z) (rebalance (ecf c z) (ec (gep s z)) (remove_w i (e_ws (eh (gep s z))))))
+      by (destruct z; reflexivity).
+    apply vsetws_inv; [apply H|]. unfold rebalance.
+    apply (assign_forall (fun n => n_sync n = false /\ n_per n <= v_xper (dview s z))).
+    apply remove_w_forall. exact (i_t1w _ (H z)).
+  - other x z E. rewrite set_async_dview_y. apply H.
 Qed.
 
-(* ---- the sending calls ---- *)
-Lemma send_sync_spec c s t l :
-  let '(s', r) := send_sync c s t l in
-  waiters (sa s') = waiters (sa s) /\
-  match a_sink (sh s) with
-  | None => r = 3 /\ s' = s
-  | Some k =>
-      if live s k then
-        if len (syncq (sa s)) <? cap_s c
-        then r = 0 /\ syncq (sa s') = syncq (sa s) ++ [mkN k true t l] /\
-             accepted (sg s') = accepted (sg s) ++ [mkN k true t l] /\ fclog (sg s') = fclog (sg s)
-        else r = 1 /\ sa s' = sa s /\ accepted (sg s') = accepted (sg s) /\ a_clogged (sh s') = true /\
-             fclog (sg s') = (if a_clogged (sh s) then fclog (sg s) else fclog (sg s) ++ [k])
-      else r = 2 /\ s' = s
-  end.
+Lemma kill_invD s : (forall x, InvD s x) -> forall x, InvD (kill s) x.
 Proof.
-  unfold send_sync. destruct (a_sink (sh s)) as [k|]; [|cbn; auto].
-  destruct (live s k); [|cbn; auto].
-  destruct (len (syncq (sa s)) <? cap_s c); [cbn; auto|].
-  destruct (a_clogged (sh s)) eqn:E; cbn; repeat split; auto.
+  intros H x. unfold InvD. replace (dview (kill s) x) with (vkill (dview s x)) by (destruct x; reflexivity).
+  apply vkill_inv. apply H.
 Qed.
 
-Lemma send_async_spec s t l :
-  let '(s', r) := send_async s t l in
-  accepted (sg s') = accepted (sg s) /\ syncq (sa s') = syncq (sa s) /\ asyncq (sa s') = asyncq (sa s) /\
-  match a_sink (sh s) with
-  | None => r = 3 /\ s' = s
-  | Some k => r = 0 /\
-      if live s k then waiters (sa s') = waiters (sa s) ++ [mkN k false t l] /\ async_err (sg s') = async_err (sg s)
-      else waiters (sa s') = waiters (sa s) /\ async_err (sg s') = async_err (sg s) + 1
-  end.
+Lemma open_ep_invD z s :
+  (forall x, InvD s x) -> e_alive (cn s z) = false -> e_per (cn s z) < per s ->
+  forall x, InvD (open_ep z (per s) s) x.
 Proof.
-  unfold send_async. destruct (a_sink (sh s)) as [k|]; [|cbn; auto].
-  destruct (live s k); cbn; repeat split; auto.
+  intros H Hd Hlt x. unfold InvD. destruct (Bool.eqb x z) eqn:E.
+  - apply eqb_prop in E. subst x.
+    replace (dview _ z) with (vjoin_x (dview s z)).
+    + apply vjoin_x_inv; [apply H|exact Hd|exact Hlt].
+    + pose proof (i_xdead _ (H z) Hd) as (Q1 & Q2 & Q3 & Q4). unfold vjoin_x. destruct z; reflexivity.
+  - other x z E. replace (dview _ (negb z)) with (vjoin_y (dview s (negb z))) by (destruct z; reflexivity).
+    apply vjoin_y_inv; [apply H|destruct z; exact Hd|destruct z; exact Hlt].
 Qed.
 
-(* after a poll of the sending Connection a blocked async sender remains only if the queue is full *)
-Lemma async_waits_round c s :
-  a_alive (sa s) = true ->
-  let s' := fst (a_round c s) in
-  a_alive (sa s') = true -> waiters (sa s') = [] \/ cap_a c <= len (asyncq (sa s')).
+Lemma open_stream_invD z s : InvP s -> (forall x, InvD s x) -> forall x, InvD (fst (open_stream z s)) x.
 Proof.
-  intros Ea. unfold a_round. rewrite Ea. cbn [negb].
-  destruct (a_loop _ c (wgate (sl s)) _) as [cl L].
-  destruct cl; [cbn; discriminate|].
-  destruct (if wgate (sl s) then ([], l_ca L ++ l_sk L) else (l_sk L, l_ca L)) as [sk ca].
-  destruct (b_alive (sb s)); cbn [negb fst]; [|cbn; discriminate].
-  cbn. intros _.
-  set (free := N.to_nat (cap_a c - len (l_aq L))).
-  destruct (Compare_dec.le_lt_dec (length (waiters (sa s))) free) as [Hle|Hlt].
-  - left. apply skipn_all2. exact Hle.
-  - right. rewrite len_app. unfold len. rewrite firstn_length_le by lia. unfold free, len. lia.
+  intros HP H. unfold open_stream. fold (cn s z). fold (cn s (negb z)).
+  destruct (e_alive (cn s z)) eqn:Ea; [exact H|].
+  destruct (e_per (cn s z) <? per s) eqn:Ep; cbn [fst].
+  - apply open_ep_invD; [exact H|exact Ea|lia].
+  - destruct (negb (e_alive (cn s (negb z))) && (e_per (cn s (negb z)) =? per s)) eqn:E; cbn [fst]; [|exact H].
+    apply andb_true_iff in E. destruct E as [E1 E2]. apply negb_true_iff in E1.
+    pose proof (p_le s HP z) as Lz.
+    set (s' := mkSt (per s + 1) false (sA s) (sB s) (mkL true true []) (mkL true true []) (nyes s) (bad s)
+                    (later_hints s)).
+    assert (H' : forall x, InvD s' x).
+    { intros x. unfold InvD. replace (dview s' x) with (vnewper (dview s x)) by (destruct x; reflexivity).
+      apply vnewper_inv; [apply H| | |].
+      - destruct x, z; cbn in *; unfold cn in *; cbn in *; assumption.
+      - destruct x, z; cbn in *; unfold cn in *; cbn in *; assumption.
+      - destruct x, z; cbn in *; unfold cn in *; cbn in *; lia. }
+    change (open_ep z (per s + 1) s') with (open_ep z (per s') s').
+    apply open_ep_invD; [exact H'| |].
+    + destruct z; exact Ea.
+    + unfold s', cn in *. destruct z; cbn in *; lia.
 Qed.
 
-(* ------------------------------------------------------------------ at most one ForceClose per period *)
-Definition fsame (s s' : st) : Prop :=
-  per s' = per s /\ a_sink (sh s') = a_sink (sh s) /\ a_clogged (sh s') = a_clogged (sh s) /\
-  fclog (sg s') = fclog (sg s) /\
-  (forall j, In (HOpened j) (a_events (sh s')) <-> In (HOpened j) (a_events (sh s))).
+Record Inv (s : st) : Prop := mkInv { inv_p : InvP s; inv_d : forall x, InvD s x }.
 
-Ltac fs := unfold fsame; cbn; repeat split; auto;
-           try (intros; rewrite ?in_app_iff in *; cbn in *; intuition congruence).
-
-Lemma fsame_refl s : fsame s s.
-Proof. fs. Qed.
-
-Lemma fsame_trans s1 s2 s3 : fsame s1 s2 -> fsame s2 s3 -> fsame s1 s3.
+Lemma do_step_inv c s t : Inv s -> Inv (fst (do_step c s t)).
 Proof.
-  intros (A1 & A2 & A3 & A4 & A5) (B1 & B2 & B3 & B4 & B5). unfold fsame.
-  split; [congruence|]. split; [congruence|]. split; [congruence|]. split; [congruence|].
-  intros j0. rewrite B5, A5. tauto.
+  intros [HP H]. split; [apply do_step_invP; exact HP|].
+  destruct t; cbn [do_step].
+  - pose proof (send_sync_invD c x s tag ln H). destruct (send_sync c x s tag ln). assumption.
+  - pose proof (async_start_invD c x s id tag ln H). destruct (async_start c x s id tag ln). assumption.
+  - pose proof (async_poll_invD x s id H). destruct (async_poll x s id). assumption.
+  - pose proof (async_drop_invD c x s id H). destruct (async_drop c x s id). assumption.
+  - cbn [fst]. apply conn_poll_invD; assumption.
+  - pose proof (h_poll_invD c x budget s H). destruct (h_poll c x budget s). assumption.
+  - pose proof (open_stream_invD x s HP H). destruct (open_stream x s). assumption.
+  - destruct (e_alive (ec (gep s x))) eqn:Ea; cbn [fst]; [|exact H].
+    intros y. unfold InvD. replace (dview _ y) with (dview s y); [apply H|].
+    destruct x, y; cbn; unfold dview, cn, hn, gl; cbn in *; rewrite ?Ea; reflexivity.
+  - destruct (e_cmds (eh (gep s x)) =? 0); cbn [fst]; [exact H|]. apply kill_invD.
+    intros y. unfold InvD. replace (dview _ y) with (dview s y) by (destruct x, y; reflexivity). apply H.
+  - destruct (e_cmds (eh (gep s x)) =? 0); cbn [fst]; [exact H|].
+    intros y. unfold InvD. replace (dview _ y) with (dview s y) by (destruct x, y; reflexivity). apply H.
+  - cbn [fst]. intros y. unfold InvD. replace (dview _ y) with (dview s y) by (destruct x, y; reflexivity). apply H.
+  - destruct (per s =? 0); cbn [fst]; [exact H|apply kill_invD; exact H].
 Qed.
 
-Lemma close_a_fsame n s : fsame s (close_a n s).
-Proof. fs. Qed.
-
-Lemma close_b_fsame n s : fsame s (close_b n s).
-Proof. fs. Qed.
-
-Lemma a_round_fsame c s : fsame s (fst (a_round c s)).
+Lemma run_inv c : forall ts s, Inv s -> Inv (fst (run c s ts)).
 Proof.
-  unfold a_round. destruct (a_alive (sa s)); cbn [negb]; [|apply fsame_refl].
-  destruct (a_loop _ c (wgate (sl s)) _) as [cl L]. destruct cl; [fs|].
-  destruct (if wgate (sl s) then ([], l_ca L ++ l_sk L) else (l_sk L, l_ca L)) as [sk ca].
-  destruct (b_alive (sb s)); cbn [negb fst]; fs.
+  induction ts as [|t ts IH]; intros s H; cbn [run]; [exact H|].
+  pose proof (do_step_inv c s t H) as H1. destruct (do_step c s t) as [s1 v]. cbn [fst] in H1.
+  specialize (IH s1 H1). destruct (run c s1 ts) as [s2 vs]. exact IH.
 Qed.
 
-Lemma b_run_fsame c : forall fuel s, fsame s (b_run fuel c s).
+Lemma init_inv hs : Inv (init hs).
+Proof. split; [apply init_invP|intros x; apply init_invD]. Qed.
+
+Lemma final_inv c hs ts : Inv (final c hs ts).
+Proof. unfold final. apply run_inv. apply init_inv. Qed.
+
+(* ---- consequences of the FIFO invariant ---- *)
+Lemma fifo_prefix c hs ts x k m :
+  let s := final c hs ts in
+  prefix (proj k m (e_del (gl s (negb x)))) (proj k m (e_acc (gl s x))).
 Proof.
-  induction fuel as [|fuel IH]; intros s; cbn [b_run]; [apply fsame_refl|].
-  destruct (b_alive (sb s)); cbn [negb]; [|apply fsame_refl].
-  destruct (reserved (sb s) || _); cbn [negb]; [|apply fsame_refl].
-  destruct (killed (sl s)); [fs|].
-  destruct (rgate (sl s)); cbn [negb]; [|fs].
-  destruct (carrier (sl s)) as [|n rest].
-  - destruct (a_alive (sa s)); fs.
-  - destruct (max_in c <? n_len n); [fs|].
-    eapply fsame_trans; [|apply IH]. fs.
+  intros s. pose proof (i_pre _ (inv_d _ (final_inv c hs ts) x) k m) as P. unfold vline in P.
+  eapply prefix_app_l. exact P.
 Qed.
 
-Lemma rounds_fsame c : forall fuel s, fsame s (rounds fuel c s).
+Lemma no_loss_while_open c hs ts x m :
+  let s := final c hs ts in
+  killed s = false -> e_alive (cn s x) = true -> reading s (negb x) = true ->
+  proj (per s) m (e_acc (gl s x)) =
+  proj (per s) m (e_del (gl s (negb x)) ++ e_nq (hn s (negb x)) ++ carrier (glo s x) ++ e_sk (cn s x) ++
+                  opt_list (e_cur (cn s x)) ++ e_sq (cn s x) ++ e_aq (cn s x)).
 Proof.
-  induction fuel as [|fuel IH]; intros s; cbn [rounds]; [apply fsame_refl|].
-  pose proof (a_round_fsame c s) as F1. destruct (a_round c s) as [s1 again]. cbn [fst] in F1.
-  pose proof (b_run_fsame c (S (length (carrier (sl s1)))) s1) as F2.
-  pose proof (fsame_trans _ _ _ F1 F2) as F3.
-  destruct again; [eapply fsame_trans; [exact F3|apply IH]|].
-  destruct (a_alive _ && negb _); [|exact F3].
-  eapply fsame_trans; [exact F3|apply a_round_fsame].
+  intros s Hk Ha Hr. pose proof (i_eq _ (inv_d _ (final_inv c hs ts) x) Hk Ha Hr m) as E.
+  fold s in E. cbn in E. rewrite E. unfold vseen, vpipe. cbn. f_equal. reassoc.
 Qed.
 
-Lemma settle_fsame c s : fsame s (settle c s).
-Proof. unfold settle. eapply fsame_trans; [apply b_run_fsame|apply rounds_fsame]. Qed.
-
-Lemma NoDup_snoc {A} (x : A) : forall l, NoDup l -> ~ In x l -> NoDup (l ++ [x]).
-Proof.
-  induction l as [|y l IH]; intros Hn Hx; cbn.
-  - constructor; [intros []|constructor].
-  - inversion Hn; subst. constructor.
-    + intros Hin. apply in_app_iff in Hin. destruct Hin as [Hin|[->|[]]]; [contradiction|].
-      apply Hx. left. reflexivity.
-    + apply IH; [assumption|]. intros Hin. apply Hx. right. exact Hin.
-Qed.
-
-Record InvF (s : st) : Prop := mkInvF {
-  f_nodup : NoDup (fclog (sg s));
-  f_log : forall k, In k (fclog (sg s)) -> k <= per s;
-  f_sink : forall k, a_sink (sh s) = Some k ->
-           k <= per s /\ (In k (fclog (sg s)) -> a_clogged (sh s) = true) /\
-           ~ In (HOpened k) (a_events (sh s));
-  f_ev : forall j, In (HOpened j) (a_events (sh s)) -> j <= per s /\ ~ In j (fclog (sg s))
-}.
-
-Lemma invF_fsame s s' : InvF s -> fsame s s' -> InvF s'.
-Proof.
-  intros [N L S E] (A1 & A2 & A3 & A4 & A5).
-  constructor; rewrite ?A1, ?A2, ?A3, ?A4; auto.
-  - intros k Hk. destruct (S k Hk) as (X & Y & Z). repeat split; auto. rewrite A5. exact Z.
-  - intros j Hj. apply E. apply A5. exact Hj.
-Qed.
-
-Lemma init_invF hs : InvF (init hs).
-Proof. constructor; cbn; try constructor; try discriminate; contradiction. Qed.
-
-Lemma pa_events_good (p : N) (fc : list N) : forall evs snk clg,
-  (forall k, snk = Some k -> k <= p /\ (In k fc -> clg = true)) ->
-  (forall j, In (HOpened j) evs -> j <= p /\ ~ In j fc) ->
-  let '(snk', clg') := pa_events evs snk clg in
-  forall k, snk' = Some k -> k <= p /\ (In k fc -> clg' = true).
-Proof.
-  induction evs as [|e evs IH]; intros snk clg G E; cbn [pa_events]; [exact G|].
-  destruct e as [j|j].
-  - apply IH.
-    + intros k Hk. inversion Hk; subst. destruct (E k (or_introl eq_refl)) as [X Y].
-      split; [exact X|]. intros Z. contradiction.
-    + intros j' Hj'. apply E. right. exact Hj'.
-  - apply IH.
-    + intros k Hk. discriminate.
-    + intros j' Hj'. apply E. right. exact Hj'.
-Qed.
-
-Lemma act_invF c s x : InvF s -> InvF (fst (act c s x)).
-Proof.
-  intros H. destruct x; cbn [act].
-  - (* send_sync: the only place where ForceClose is raised *)
-    unfold send_sync. destruct (a_sink (sh s)) as [k|] eqn:Es; [|exact H].
-    destruct (live s k); [|exact H].
-    destruct (len (syncq (sa s)) <? cap_s c); cbn [fst].
-    + eapply invF_fsame; [exact H|]. fs.
-    + destruct (a_clogged (sh s)) eqn:Ec; [exact H|]. cbn [fst].
-      destruct H as [N L S E]. destruct (S k Es) as (X & Y & Z).
-      constructor; cbn.
-      * apply NoDup_snoc; [exact N|]. intros Hin. specialize (Y Hin). congruence.
-      * intros k' Hk'. apply in_app_iff in Hk'. destruct Hk' as [Hk'|[->|[]]]; auto.
-      * intros k' Hk'. rewrite ?Es in Hk'. inversion Hk'; subst. repeat split; auto.
-      * intros j Hj. destruct (E j Hj) as [A B]. split; [exact A|].
-        intros Hin. apply in_app_iff in Hin. destruct Hin as [Hin|[->|[]]]; [contradiction|].
-        contradiction.
-  - unfold send_async. destruct (a_sink (sh s)); [|exact H].
-    destruct (live s n); cbn [fst]; (eapply invF_fsame; [exact H|fs]).
-  - cbn [fst]. eapply invF_fsame; [exact H|fs].
-  - unfold h_poll. destruct (b_events (sb s)) as [|[k|k] es].
-    + destruct (b_peers (sb s)).
-      * destruct (notifq (sb s)); cbn [fst]; [exact H|]. eapply invF_fsame; [exact H|fs].
-      * cbn [fst]. eapply invF_fsame; [exact H|fs].
-    + cbn [fst]. eapply invF_fsame; [exact H|fs].
-    + cbn [fst]. eapply invF_fsame; [exact H|fs].
-  - destruct H as [N L S E].
-    pose proof (pa_events_good (per s) (fclog (sg s)) (a_events (sh s)) (a_sink (sh s)) (a_clogged (sh s))) as G.
-    destruct (pa_events (a_events (sh s)) (a_sink (sh s)) (a_clogged (sh s))) as [snk clg]. cbn [fst].
-    assert (G' : forall k, snk = Some k -> k <= per s /\ (In k (fclog (sg s)) -> clg = true)).
-    { apply G; [|exact E]. intros k Hk. destruct (S k Hk) as (X & Y & _). split; assumption. }
-    constructor; cbn; auto.
-    + intros k Hk. destruct (G' k Hk). repeat split; auto.
-    + intros j [].
-  - destruct (a_alive (sa s)); cbn [fst]; [|exact H]. eapply invF_fsame; [exact H|apply close_a_fsame].
-  - destruct (b_alive (sb s)); cbn [fst]; [|exact H]. eapply invF_fsame; [exact H|apply close_b_fsame].
-  - destruct (a_alive (sa s) || b_alive (sb s)); cbn [fst]; [|exact H].
-    destruct (a_alive (sa s)); (eapply invF_fsame; [exact H|fs]).
-  - unfold reopen. destruct (a_alive (sa s) || b_alive (sb s)); cbn [fst]; [exact H|].
-    destruct H as [N L S E]. constructor; cbn; auto.
-    + intros k Hk. specialize (L k Hk). lia.
-    + intros k Hk. destruct (S k Hk) as (X & Y & Z). repeat split; auto; [lia|].
-      intros Hin. apply in_app_iff in Hin. destruct Hin as [Hin|[Hin|[]]]; [contradiction|].
-      inversion Hin. lia.
-    + intros j Hj. apply in_app_iff in Hj. destruct Hj as [Hj|[Hj|[]]].
-      * destruct (E j Hj). split; [lia|assumption].
-      * inversion Hj; subst. split; [lia|]. intros Hin. specialize (L _ Hin). lia.
-Qed.
-
-Lemma step_invF c s x : InvF s -> InvF (fst (step c s x)).
-Proof.
-  intros H. unfold step. pose proof (act_invF c s x H) as H1. destruct (act c s x) as [s1 r].
-  cbn [fst] in *. eapply invF_fsame; [exact H1|apply settle_fsame].
-Qed.
-
-Lemma run_invF c : forall xs s, InvF s -> InvF (fst (run c s xs)).
-Proof.
-  induction xs as [|x xs IH]; intros s H; cbn [run]; [exact H|].
-  pose proof (step_invF c s x H) as H1. destruct (step c s x) as [s1 r]. cbn [fst] in H1.
-  specialize (IH s1 H1). destruct (run c s1 xs) as [s2 rs]. exact IH.
-Qed.
-
-Lemma clog_once c hs xs : NoDup (fclog (sg (final c hs xs))).
-Proof. unfold final. apply f_nodup. apply run_invF. apply init_invF. Qed.
